@@ -5,10 +5,12 @@ Technique: a multi-word number is compared with its specification bit by bit
 (`Nat.eq_of_testBit_eq`); `testBit_val` reads bit k of ⟦a⟧ as bit `k % w` of word `k / w`.
 -/
 import Bee2V.C05.ModelBits
+import Bee2V.C05.LemmasWord16
 import Mathlib.Tactic.Ring
 import Mathlib.Tactic.Linarith
 import Mathlib.Tactic.NormNum
 import Mathlib.Tactic.SplitIfs
+import Mathlib.Tactic.IntervalCases
 import Mathlib.Data.ZMod.Basic
 namespace Bee2V.C05
 
@@ -816,13 +818,6 @@ theorem u16NegInv_gen (x : Nat) (hodd : x % 2 = 1) : (u16NegInv x * x + 1) % 2 ^
 
 /-! ## CLZ / CTZ -/
 
-/-- `c` is the number of trailing zero bits of the `bits`-bit word `x` -/
-def CtzSpec (bits x c : Nat) : Prop :=
-  (x = 0 → c = bits) ∧ (x ≠ 0 → c < bits ∧ x % 2 ^ c = 0 ∧ x / 2 ^ c % 2 = 1)
-/-- `c` is the number of leading zero bits of the `bits`-bit word `x` -/
-def ClzSpec (bits x c : Nat) : Prop :=
-  (x = 0 → c = bits) ∧ (x ≠ 0 → c < bits ∧ x / 2 ^ (bits - 1 - c) = 1)
-
 theorem u32CLZ_fast_gen (x : Nat) (hx : x < 2 ^ 32) : ClzSpec 32 x (u32CLZ_fast x) := by
   unfold u32CLZ_fast ClzSpec
   simp only [Nat.shiftRight_eq_div_pow]
@@ -1510,315 +1505,6 @@ theorem CtzOK_of_spec {w : Nat} {ctz : Nat → Nat} (h : ∀ x, x < 2 ^ w → Ct
     CtzOK w ctz := fun x hx hlt => (h x hlt).2 (by omega)
 
 
-/-! ## the 16-bit word helpers: complete enumeration -/
-
-/-! ### specifications of the word helpers (structural, width as a parameter) -/
-/-- bit-reversal of the low `k` bits: bit i goes to bit k-1-i -/
-def bitrevN : Nat → Nat → Nat | 0, _ => 0 | k+1, x => (x % 2) * 2^k + bitrevN k (x/2)
-/-- number of ones among the low `k` bits -/
-def popN : Nat → Nat → Nat | 0,_ => 0 | k+1, x => x % 2 + popN k (x/2)
-/-- interleave: bit i of `lo` goes to bit 2i, bit i of `hi` to bit 2i+1 (k bits each) -/
-def shufN : Nat → Nat → Nat → Nat | 0, _, _ => 0 | k+1, lo, hi => (lo % 2) + 2 * (hi % 2) + 4 * shufN k (lo/2) (hi/2)
-
-/-! ### kernel-friendly copies of the 16-bit models (raw `Nat.*` operations: the kernel evaluates
-these about ten times faster than the instance-wrapped notation); each is definitionally the model -/
-def k16Rev (w : Nat) : Nat := Nat.mod (Nat.lor (Nat.shiftLeft w 8) (Nat.shiftRight w 8)) 0x10000
-def k16Bitrev (w : Nat) : Nat :=
-  let w := Nat.mod (Nat.lor (Nat.land (Nat.shiftRight w 1) 0x5555) (Nat.shiftLeft (Nat.land w 0x5555) 1)) 0x10000
-  let w := Nat.mod (Nat.lor (Nat.land (Nat.shiftRight w 2) 0x3333) (Nat.shiftLeft (Nat.land w 0x3333) 2)) 0x10000
-  let w := Nat.mod (Nat.lor (Nat.land (Nat.shiftRight w 4) 0x0F0F) (Nat.shiftLeft (Nat.land w 0x0F0F) 4)) 0x10000
-  let w := Nat.mod (Nat.lor (Nat.shiftRight w 8) (Nat.shiftLeft w 8)) 0x10000
-  w
-def k16Weight (w : Nat) : Nat :=
-  let w := Nat.mod (Nat.add w (Nat.sub 0x10000 (Nat.land (Nat.shiftRight w 1) 0x5555))) 0x10000
-  let w := Nat.mod (Nat.add (Nat.land w 0x3333) (Nat.land (Nat.shiftRight w 2) 0x3333)) 0x10000
-  let w := Nat.mod (Nat.land (Nat.add w (Nat.shiftRight w 4)) 0x0F0F) 0x10000
-  let w := Nat.mod (Nat.add w (Nat.shiftRight w 8)) 0x10000
-  Nat.land w 0x001F
-def k16Parity (w : Nat) : Nat :=
-  let w := Nat.xor w (Nat.shiftRight w 1)
-  let w := Nat.xor w (Nat.shiftRight w 2)
-  let w := Nat.xor w (Nat.shiftRight w 4)
-  let w := Nat.xor w (Nat.shiftRight w 8)
-  Nat.land w 1
-def k16CTZ_safe (w : Nat) : Nat :=
-  Nat.mod (Nat.add 16 (Nat.sub 0x10000000000000000 (k16Weight (Nat.mod (Nat.lor w (Nat.mod (Nat.sub 0x10000 (Nat.mod w 0x10000)) 0x10000)) 0x10000)))) 0x10000000000000000
-def k16CLZ_safe (w : Nat) : Nat :=
-  let w := Nat.lor w (Nat.shiftRight w 1)
-  let w := Nat.lor w (Nat.shiftRight w 2)
-  let w := Nat.lor w (Nat.shiftRight w 4)
-  let w := Nat.lor w (Nat.shiftRight w 8)
-  k16Weight (Nat.mod (Nat.xor w 0xFFFF) 0x10000)
-def k16Shuffle (w : Nat) : Nat :=
-  let t := Nat.land (Nat.xor w (Nat.shiftRight w 4)) 0x00F0
-  let w := Nat.mod (Nat.xor w (Nat.xor t (Nat.shiftLeft t 4))) 0x10000
-  let t := Nat.land (Nat.xor w (Nat.shiftRight w 2)) 0x0C0C
-  let w := Nat.mod (Nat.xor w (Nat.xor t (Nat.shiftLeft t 2))) 0x10000
-  let t := Nat.land (Nat.xor w (Nat.shiftRight w 1)) 0x2222
-  let w := Nat.mod (Nat.xor w (Nat.xor t (Nat.shiftLeft t 1))) 0x10000
-  w
-def k16Deshuffle (w : Nat) : Nat :=
-  let t := Nat.land (Nat.xor w (Nat.shiftRight w 1)) 0x2222
-  let w := Nat.mod (Nat.xor w (Nat.xor t (Nat.shiftLeft t 1))) 0x10000
-  let t := Nat.land (Nat.xor w (Nat.shiftRight w 2)) 0x0C0C
-  let w := Nat.mod (Nat.xor w (Nat.xor t (Nat.shiftLeft t 2))) 0x10000
-  let t := Nat.land (Nat.xor w (Nat.shiftRight w 4)) 0x00F0
-  let w := Nat.mod (Nat.xor w (Nat.xor t (Nat.shiftLeft t 4))) 0x10000
-  w
-def k16Step (w ret : Nat) : Nat := Nat.mod (Nat.mul ret (Nat.add (Nat.mul w ret) 2)) 0x10000
-def k16NegInv (w : Nat) : Nat := k16Step w (k16Step w (k16Step w (k16Step w w)))
-
-theorem k16Rev_eq (w : Nat) : u16Rev w = k16Rev w := rfl
-theorem k16Bitrev_eq (w : Nat) : u16Bitrev w = k16Bitrev w := rfl
-theorem k16Weight_eq (w : Nat) : u16Weight w = k16Weight w := rfl
-theorem k16Parity_eq (w : Nat) : u16Parity w = k16Parity w := rfl
-theorem k16CTZ_safe_eq (w : Nat) : u16CTZ_safe w = k16CTZ_safe w := rfl
-theorem k16CLZ_safe_eq (w : Nat) : u16CLZ_safe w = k16CLZ_safe w := rfl
-theorem k16Shuffle_eq (w : Nat) : u16Shuffle w = k16Shuffle w := rfl
-theorem k16Deshuffle_eq (w : Nat) : u16Deshuffle w = k16Deshuffle w := rfl
-theorem k16NegInv_eq (w : Nat) : u16NegInv w = k16NegInv w := rfl
-
-def pop16K (x0 : Nat) : Nat :=
-  let x1 := Nat.div x0 2
-  let x2 := Nat.div x1 2
-  let x3 := Nat.div x2 2
-  let x4 := Nat.div x3 2
-  let x5 := Nat.div x4 2
-  let x6 := Nat.div x5 2
-  let x7 := Nat.div x6 2
-  let x8 := Nat.div x7 2
-  let x9 := Nat.div x8 2
-  let x10 := Nat.div x9 2
-  let x11 := Nat.div x10 2
-  let x12 := Nat.div x11 2
-  let x13 := Nat.div x12 2
-  let x14 := Nat.div x13 2
-  let x15 := Nat.div x14 2
-  Nat.add (Nat.mod x0 2) (Nat.add (Nat.mod x1 2) (Nat.add (Nat.mod x2 2) (Nat.add (Nat.mod x3 2) (Nat.add (Nat.mod x4 2) (Nat.add (Nat.mod x5 2) (Nat.add (Nat.mod x6 2) (Nat.add (Nat.mod x7 2) (Nat.add (Nat.mod x8 2) (Nat.add (Nat.mod x9 2) (Nat.add (Nat.mod x10 2) (Nat.add (Nat.mod x11 2) (Nat.add (Nat.mod x12 2) (Nat.add (Nat.mod x13 2) (Nat.add (Nat.mod x14 2) (Nat.add (Nat.mod x15 2) (0))))))))))))))))
-def brev16K (x0 : Nat) : Nat :=
-  let x1 := Nat.div x0 2
-  let x2 := Nat.div x1 2
-  let x3 := Nat.div x2 2
-  let x4 := Nat.div x3 2
-  let x5 := Nat.div x4 2
-  let x6 := Nat.div x5 2
-  let x7 := Nat.div x6 2
-  let x8 := Nat.div x7 2
-  let x9 := Nat.div x8 2
-  let x10 := Nat.div x9 2
-  let x11 := Nat.div x10 2
-  let x12 := Nat.div x11 2
-  let x13 := Nat.div x12 2
-  let x14 := Nat.div x13 2
-  let x15 := Nat.div x14 2
-  Nat.add (Nat.mul (Nat.mod x0 2) 32768) (Nat.add (Nat.mul (Nat.mod x1 2) 16384) (Nat.add (Nat.mul (Nat.mod x2 2) 8192) (Nat.add (Nat.mul (Nat.mod x3 2) 4096) (Nat.add (Nat.mul (Nat.mod x4 2) 2048) (Nat.add (Nat.mul (Nat.mod x5 2) 1024) (Nat.add (Nat.mul (Nat.mod x6 2) 512) (Nat.add (Nat.mul (Nat.mod x7 2) 256) (Nat.add (Nat.mul (Nat.mod x8 2) 128) (Nat.add (Nat.mul (Nat.mod x9 2) 64) (Nat.add (Nat.mul (Nat.mod x10 2) 32) (Nat.add (Nat.mul (Nat.mod x11 2) 16) (Nat.add (Nat.mul (Nat.mod x12 2) 8) (Nat.add (Nat.mul (Nat.mod x13 2) 4) (Nat.add (Nat.mul (Nat.mod x14 2) 2) (Nat.add (Nat.mul (Nat.mod x15 2) 1) (0))))))))))))))))
-def shuf16K (l0 h0 : Nat) : Nat :=
-  let l1 := Nat.div l0 2
-  let l2 := Nat.div l1 2
-  let l3 := Nat.div l2 2
-  let l4 := Nat.div l3 2
-  let l5 := Nat.div l4 2
-  let l6 := Nat.div l5 2
-  let l7 := Nat.div l6 2
-  let h1 := Nat.div h0 2
-  let h2 := Nat.div h1 2
-  let h3 := Nat.div h2 2
-  let h4 := Nat.div h3 2
-  let h5 := Nat.div h4 2
-  let h6 := Nat.div h5 2
-  let h7 := Nat.div h6 2
-  Nat.add (Nat.add (Nat.mod l0 2) (Nat.mul 2 (Nat.mod h0 2))) (Nat.mul 4 (Nat.add (Nat.add (Nat.mod l1 2) (Nat.mul 2 (Nat.mod h1 2))) (Nat.mul 4 (Nat.add (Nat.add (Nat.mod l2 2) (Nat.mul 2 (Nat.mod h2 2))) (Nat.mul 4 (Nat.add (Nat.add (Nat.mod l3 2) (Nat.mul 2 (Nat.mod h3 2))) (Nat.mul 4 (Nat.add (Nat.add (Nat.mod l4 2) (Nat.mul 2 (Nat.mod h4 2))) (Nat.mul 4 (Nat.add (Nat.add (Nat.mod l5 2) (Nat.mul 2 (Nat.mod h5 2))) (Nat.mul 4 (Nat.add (Nat.add (Nat.mod l6 2) (Nat.mul 2 (Nat.mod h6 2))) (Nat.mul 4 (Nat.add (Nat.add (Nat.mod l7 2) (Nat.mul 2 (Nat.mod h7 2))) (Nat.mul 4 (0))))))))))))))))
-
-theorem pop16K_eq (x : Nat) : popN 16 x = pop16K x := rfl
-theorem brev16K_eq (x : Nat) : bitrevN 16 x = brev16K x := by
-  simp only [bitrevN, brev16K]; rfl
-theorem shuf16K_eq (l h : Nat) : shufN 8 l h = shuf16K l h := rfl
-
-def k16CTZ_fast (w : Nat) : Nat :=
-  let l := 16
-  let t := Nat.mod (Nat.shiftLeft w 8) 0x10000
-  let (l, w) := if t ≠ 0 then (l - 8, t) else (l, w)
-  let t := Nat.mod (Nat.shiftLeft w 4) 0x10000
-  let (l, w) := if t ≠ 0 then (l - 4, t) else (l, w)
-  let t := Nat.mod (Nat.shiftLeft w 2) 0x10000
-  let (l, w) := if t ≠ 0 then (l - 2, t) else (l, w)
-  if Nat.mod (Nat.shiftLeft w 1) 0x10000 ≠ 0 then l - 2 else l - (if w ≠ 0 then 1 else 0)
-def k16CLZ_fast (w : Nat) : Nat :=
-  let l := 16
-  let t := Nat.shiftRight w 8
-  let (l, w) := if t ≠ 0 then (l - 8, t) else (l, w)
-  let t := Nat.shiftRight w 4
-  let (l, w) := if t ≠ 0 then (l - 4, t) else (l, w)
-  let t := Nat.shiftRight w 2
-  let (l, w) := if t ≠ 0 then (l - 2, t) else (l, w)
-  if Nat.shiftRight w 1 ≠ 0 then l - 2 else l - (if w ≠ 0 then 1 else 0)
-theorem raw_mod (a b : Nat) : Nat.mod a b = a % b := rfl
-theorem raw_shl (a b : Nat) : Nat.shiftLeft a b = a <<< b := rfl
-theorem raw_shr (a b : Nat) : Nat.shiftRight a b = a >>> b := rfl
-theorem k16CTZ_fast_eq (w : Nat) : u16CTZ_fast w = k16CTZ_fast w := by
-  simp only [u16CTZ_fast, k16CTZ_fast, raw_mod, raw_shl]
-theorem k16CLZ_fast_eq (w : Nat) : u16CLZ_fast w = k16CLZ_fast w := by
-  simp only [u16CLZ_fast, k16CLZ_fast, raw_shr]
-
-def ctzOk (x c : Nat) : Bool :=
-  bif Nat.beq x 0 then Nat.beq c 16
-  else (Nat.blt c 16 && Nat.beq (Nat.mod x (Nat.pow 2 c)) 0 &&
-    Nat.beq (Nat.mod (Nat.div x (Nat.pow 2 c)) 2) 1)
-def clzOk (x c : Nat) : Bool :=
-  bif Nat.beq x 0 then Nat.beq c 16
-  else (Nat.blt c 16 && Nat.beq (Nat.div x (Nat.pow 2 (Nat.sub 15 c))) 1)
-
-theorem ctzOk_spec {x c : Nat} (h : ctzOk x c = true) : CtzSpec 16 x c := by
-  unfold ctzOk at h
-  by_cases hx : x = 0
-  · subst hx
-    simp at h
-    exact ⟨fun _ => h, fun h0 => absurd rfl h0⟩
-  · have hb : Nat.beq x 0 = false := by
-      cases hb : Nat.beq x 0
-      · rfl
-      · exact absurd (Nat.eq_of_beq_eq_true hb) hx
-    rw [hb] at h
-    simp only [cond_false, Bool.and_eq_true, Nat.beq_eq_true_eq, Nat.blt_eq] at h
-    exact ⟨fun h0 => absurd h0 hx, fun _ => ⟨h.1.1, Nat.eq_of_beq_eq_true h.1.2, Nat.eq_of_beq_eq_true h.2⟩⟩
-
-theorem clzOk_spec {x c : Nat} (h : clzOk x c = true) : ClzSpec 16 x c := by
-  unfold clzOk at h
-  by_cases hx : x = 0
-  · subst hx
-    simp at h
-    exact ⟨fun _ => h, fun h0 => absurd rfl h0⟩
-  · have hb : Nat.beq x 0 = false := by
-      cases hb : Nat.beq x 0
-      · rfl
-      · exact absurd (Nat.eq_of_beq_eq_true hb) hx
-    rw [hb] at h
-    simp only [cond_false, Bool.and_eq_true, Nat.beq_eq_true_eq, Nat.blt_eq] at h
-    exact ⟨fun h0 => absurd h0 hx, fun _ => ⟨h.1, Nat.eq_of_beq_eq_true h.2⟩⟩
-
-/-- everything that is claimed about the 16-bit helpers at the point `x`, as one Boolean -/
-def chk16 (x : Nat) : Bool :=
-  Nat.beq (k16Rev x) (Nat.add (Nat.mul (Nat.mod x 256) 256) (Nat.div x 256)) &&
-  Nat.beq (k16Bitrev x) (brev16K x) &&
-  Nat.beq (k16Weight x) (pop16K x) &&
-  Nat.beq (k16Parity x) (Nat.mod (pop16K x) 2) &&
-  ctzOk x (k16CTZ_safe x) && ctzOk x (k16CTZ_fast x) &&
-  clzOk x (k16CLZ_safe x) && clzOk x (k16CLZ_fast x) &&
-  Nat.beq (k16Shuffle x) (shuf16K (Nat.mod x 256) (Nat.div x 256)) &&
-  Nat.beq (k16Deshuffle (k16Shuffle x)) x && Nat.beq (k16Shuffle (k16Deshuffle x)) x &&
-  (Nat.beq (Nat.mod x 2) 0 || Nat.beq (Nat.mod (Nat.add (Nat.mul (k16NegInv x) x) 1) 65536) 0)
-
-/-- `p` holds at lo, lo+1, …, lo+k-1 (the index is computed from literals, so that the kernel
-    evaluates `p` at a literal) -/
-def allRange (p : Nat → Bool) : Nat → Nat → Bool
-  | _, 0 => true
-  | lo, k+1 => p (lo + k) && allRange p lo k
-
-theorem allRange_spec {p : Nat → Bool} {lo k : Nat} (h : allRange p lo k = true) :
-    ∀ x, lo ≤ x → x < lo + k → p x = true := by
-  induction k with
-  | zero => intro x h1 h2; omega
-  | succ k ih =>
-    intro x h1 h2
-    simp only [allRange, Bool.and_eq_true] at h
-    by_cases hx : x = lo + k
-    · rw [hx]; exact h.1
-    · exact ih h.2 x h1 (by omega)
-
-/-! complete enumeration of the 65536 values of a 16-bit word, in 16 chunks checked by the kernel -/
-set_option maxRecDepth 100000 in
-theorem chk16_c0 : allRange chk16 0 4096 = true := by decide +kernel
-set_option maxRecDepth 100000 in
-theorem chk16_c1 : allRange chk16 4096 4096 = true := by decide +kernel
-set_option maxRecDepth 100000 in
-theorem chk16_c2 : allRange chk16 8192 4096 = true := by decide +kernel
-set_option maxRecDepth 100000 in
-theorem chk16_c3 : allRange chk16 12288 4096 = true := by decide +kernel
-set_option maxRecDepth 100000 in
-theorem chk16_c4 : allRange chk16 16384 4096 = true := by decide +kernel
-set_option maxRecDepth 100000 in
-theorem chk16_c5 : allRange chk16 20480 4096 = true := by decide +kernel
-set_option maxRecDepth 100000 in
-theorem chk16_c6 : allRange chk16 24576 4096 = true := by decide +kernel
-set_option maxRecDepth 100000 in
-theorem chk16_c7 : allRange chk16 28672 4096 = true := by decide +kernel
-set_option maxRecDepth 100000 in
-theorem chk16_c8 : allRange chk16 32768 4096 = true := by decide +kernel
-set_option maxRecDepth 100000 in
-theorem chk16_c9 : allRange chk16 36864 4096 = true := by decide +kernel
-set_option maxRecDepth 100000 in
-theorem chk16_c10 : allRange chk16 40960 4096 = true := by decide +kernel
-set_option maxRecDepth 100000 in
-theorem chk16_c11 : allRange chk16 45056 4096 = true := by decide +kernel
-set_option maxRecDepth 100000 in
-theorem chk16_c12 : allRange chk16 49152 4096 = true := by decide +kernel
-set_option maxRecDepth 100000 in
-theorem chk16_c13 : allRange chk16 53248 4096 = true := by decide +kernel
-set_option maxRecDepth 100000 in
-theorem chk16_c14 : allRange chk16 57344 4096 = true := by decide +kernel
-set_option maxRecDepth 100000 in
-theorem chk16_c15 : allRange chk16 61440 4096 = true := by decide +kernel
-
-theorem chk16_all (x : Nat) (hx : x < 65536) : chk16 x = true := by
-  by_cases h0 : x < 4096
-  · exact allRange_spec chk16_c0 x (by omega) (by omega)
-  by_cases h1 : x < 8192
-  · exact allRange_spec chk16_c1 x (by omega) (by omega)
-  by_cases h2 : x < 12288
-  · exact allRange_spec chk16_c2 x (by omega) (by omega)
-  by_cases h3 : x < 16384
-  · exact allRange_spec chk16_c3 x (by omega) (by omega)
-  by_cases h4 : x < 20480
-  · exact allRange_spec chk16_c4 x (by omega) (by omega)
-  by_cases h5 : x < 24576
-  · exact allRange_spec chk16_c5 x (by omega) (by omega)
-  by_cases h6 : x < 28672
-  · exact allRange_spec chk16_c6 x (by omega) (by omega)
-  by_cases h7 : x < 32768
-  · exact allRange_spec chk16_c7 x (by omega) (by omega)
-  by_cases h8 : x < 36864
-  · exact allRange_spec chk16_c8 x (by omega) (by omega)
-  by_cases h9 : x < 40960
-  · exact allRange_spec chk16_c9 x (by omega) (by omega)
-  by_cases h10 : x < 45056
-  · exact allRange_spec chk16_c10 x (by omega) (by omega)
-  by_cases h11 : x < 49152
-  · exact allRange_spec chk16_c11 x (by omega) (by omega)
-  by_cases h12 : x < 53248
-  · exact allRange_spec chk16_c12 x (by omega) (by omega)
-  by_cases h13 : x < 57344
-  · exact allRange_spec chk16_c13 x (by omega) (by omega)
-  by_cases h14 : x < 61440
-  · exact allRange_spec chk16_c14 x (by omega) (by omega)
-  by_cases h15 : x < 65536
-  · exact allRange_spec chk16_c15 x (by omega) (by omega)
-  omega
-
-/-- the conjuncts of `chk16`, in terms of the models and the structural specifications -/
-theorem chk16_unpack {x : Nat} (h : chk16 x = true) :
-    u16Rev x = (x % 256) * 256 + x / 256 ∧ u16Bitrev x = bitrevN 16 x ∧
-    u16Weight x = popN 16 x ∧ u16Parity x = popN 16 x % 2 ∧
-    CtzSpec 16 x (u16CTZ_safe x) ∧ CtzSpec 16 x (u16CTZ_fast x) ∧
-    ClzSpec 16 x (u16CLZ_safe x) ∧ ClzSpec 16 x (u16CLZ_fast x) ∧
-    u16Shuffle x = shufN 8 (x % 256) (x / 256) ∧
-    u16Deshuffle (u16Shuffle x) = x ∧ u16Shuffle (u16Deshuffle x) = x ∧
-    (x % 2 = 1 → (u16NegInv x * x + 1) % 65536 = 0) := by
-  simp only [chk16, Bool.and_eq_true, Bool.or_eq_true, Nat.beq_eq_true_eq] at h
-  obtain ⟨⟨⟨⟨⟨⟨⟨⟨⟨⟨⟨h1, h2⟩, h3⟩, h4⟩, h5⟩, h6⟩, h7⟩, h8⟩, h9⟩, h10⟩, h11⟩, h12⟩ := h
-  rw [k16Rev_eq, k16Bitrev_eq, k16Weight_eq, k16Parity_eq, k16CTZ_safe_eq, k16CTZ_fast_eq,
-    k16CLZ_safe_eq, k16CLZ_fast_eq, k16Shuffle_eq, k16Deshuffle_eq, k16NegInv_eq,
-    pop16K_eq, brev16K_eq, shuf16K_eq]
-  have e := @Nat.eq_of_beq_eq_true
-  refine ⟨e h1, e h2, e h3, e h4, ctzOk_spec h5, ctzOk_spec h6, clzOk_spec h7, clzOk_spec h8,
-    e h9, e h10, e h11, ?_⟩
-  intro hodd
-  rcases h12 with h12 | h12
-  · have : x % 2 = 0 := e h12
-    omega
-  · exact e h12
-
-
-
 /-! ## FAST(uNNCLZ), FAST(uNNCTZ) for all 32- and 64-bit words: the dichotomy, step by step -/
 
 /-- one step of the dichotomy of FAST(uNNCLZ): `if (t = w >> s) l -= s, w = t;` -/
@@ -2184,5 +1870,1762 @@ theorem wwIsRepW_both (a : List Nat) (x : Nat) :
     · simp [Bool.and_comm]
     · simp
 
+
+
+/-! ## SAFE(uNNCLZ), SAFE(uNNCTZ) for all 32- and 64-bit words: the argument of uNNWeight is always
+2^NN − 2^b (b ≤ NN), and uNNWeight is evaluated on these NN + 1 values by the kernel -/
+
+namespace Bits
+
+/-- some bit among j, …, j+m-1 of x is set -/
+def anyBit (x j : Nat) : Nat → Bool
+  | 0 => false
+  | m + 1 => anyBit x j m || x.testBit (j + m)
+
+theorem anyBit_add (x j m : Nat) : ∀ n, anyBit x j (m + n) = (anyBit x j m || anyBit x (j + m) n) := by
+  intro n
+  induction n with
+  | zero => simp [anyBit]
+  | succ n ih =>
+    rw [← Nat.add_assoc, anyBit, ih, anyBit, Bool.or_assoc, Nat.add_assoc]
+
+theorem anyBit_one (x j : Nat) : anyBit x j 1 = x.testBit j := by simp [anyBit]
+
+/-- one smearing step `w |= w >> m` doubles the window -/
+theorem smear_step {w x m : Nat} (h : ∀ j, w.testBit j = anyBit x j m) :
+    ∀ j, (w ||| (w >>> m)).testBit j = anyBit x j (m + m) := by
+  intro j
+  rw [Nat.testBit_or, Nat.testBit_shiftRight, h, h, anyBit_add, Nat.add_comm m j]
+
+theorem anyBit_true {x j t : Nat} : ∀ m, j ≤ t → t < j + m → x.testBit t = true →
+    anyBit x j m = true := by
+  intro m
+  induction m with
+  | zero => intro h1 h2; omega
+  | succ m ih =>
+    intro h1 h2 h3
+    rw [anyBit]
+    by_cases c : t = j + m
+    · rw [← c, h3]; simp
+    · rw [ih h1 (by omega) h3]; simp
+
+theorem anyBit_false {x j : Nat} (h : ∀ k, j ≤ k → x.testBit k = false) :
+    ∀ m, anyBit x j m = false := by
+  intro m
+  induction m with
+  | zero => rfl
+  | succ m ih => rw [anyBit, ih, h _ (Nat.le_add_right _ _)]; rfl
+
+/-- the smeared word is 2^b − 1 where b is the bit length of x -/
+theorem smear_val {s x b N : Nat} (hs : ∀ j, s.testBit j = anyBit x j N)
+    (hx : x < 2 ^ b) (hb : b = 0 ∨ 2 ^ (b - 1) ≤ x) (hN : b ≤ N) : s = 2 ^ b - 1 := by
+  apply Nat.eq_of_testBit_eq
+  intro j
+  rw [hs, Nat.testBit_two_pow_sub_one]
+  have hhi : ∀ k, b ≤ k → x.testBit k = false := fun k hk =>
+    Nat.testBit_lt_two_pow (Nat.lt_of_lt_of_le hx (Nat.pow_le_pow_right (by decide) hk))
+  by_cases c : j < b
+  · have hb' : 2 ^ (b - 1) ≤ x := by rcases hb with h0 | h0; omega; exact h0
+    have htop : x.testBit (b - 1) = true := by
+      rw [Nat.testBit_eq_decide_div_mod_eq]
+      have : x / 2 ^ (b - 1) = 1 := by
+        apply Nat.div_eq_of_lt_le
+        · simpa using hb'
+        · have e : 2 ^ b = 2 ^ (b - 1) * 2 := by rw [← Nat.pow_succ]; congr 1; omega
+          rw [e] at hx; omega
+      rw [this]; rfl
+    rw [anyBit_true N (by omega) (by omega) htop]; simp [c]
+  · rw [anyBit_false (fun k hk => hhi k (by omega))]; simp [c]
+
+theorem not_smear (b N : Nat) (hb : b ≤ N) : (2 ^ b - 1) ^^^ (2 ^ N - 1) = 2 ^ N - 2 ^ b := by
+  apply Nat.eq_of_testBit_eq
+  intro j
+  have e : 2 ^ N - 2 ^ b = (2 ^ (N - b) - 1) * 2 ^ b := by
+    rw [Nat.sub_mul, ← Nat.pow_add, Nat.one_mul]; congr 2; omega
+  rw [Nat.testBit_xor, Nat.testBit_two_pow_sub_one, Nat.testBit_two_pow_sub_one, e,
+    Nat.testBit_mul_two_pow, Nat.testBit_two_pow_sub_one]
+  by_cases c1 : j < b
+  · have : j < N := by omega
+    have c2 : ¬ b ≤ j := by omega
+    simp [c1, this, c2]
+  · by_cases c3 : j < N
+    · have c2 : b ≤ j := by omega
+      have c4 : j - b < N - b := by omega
+      simp [c1, c3, c2, c4]
+    · have c2 : b ≤ j := by omega
+      have c4 : ¬ j - b < N - b := by omega
+      simp [c1, c3, c2, c4]
+
+/-- bit length: for x ≠ 0 there is b with 2^(b-1) ≤ x < 2^b -/
+theorem bitlen_exists (x : Nat) : ∃ b, x < 2 ^ b ∧ (b = 0 ∨ 2 ^ (b - 1) ≤ x) := by
+  by_cases h : x = 0
+  · exact ⟨0, by simp [h], Or.inl rfl⟩
+  · exact ⟨Nat.log2 x + 1, Nat.lt_log2_self, Or.inr (by simpa using Nat.log2_self_le h)⟩
+
+/-- the finitely many values on which the SAFE editions call uNNWeight -/
+theorem weight32_ones : (List.range 33).all (fun b => u32Weight (2 ^ 32 - 2 ^ b) == 32 - b) = true := by
+  decide +kernel
+theorem weight64_ones : (List.range 65).all (fun b => u64Weight (2 ^ 64 - 2 ^ b) == 64 - b) = true := by
+  decide +kernel
+
+theorem u32Weight_ones (b : Nat) (hb : b ≤ 32) : u32Weight (2 ^ 32 - 2 ^ b) = 32 - b := by
+  have := List.all_eq_true.mp weight32_ones b (List.mem_range.mpr (by omega))
+  simpa using this
+theorem u64Weight_ones (b : Nat) (hb : b ≤ 64) : u64Weight (2 ^ 64 - 2 ^ b) = 64 - b := by
+  have := List.all_eq_true.mp weight64_ones b (List.mem_range.mpr (by omega))
+  simpa using this
+
+theorem clzSpec_of_bitlen {N x b : Nat} (hN : 0 < N) (hx : x < 2 ^ b) (hb : b = 0 ∨ 2 ^ (b - 1) ≤ x)
+    (hbN : b ≤ N) : ClzSpec N x (N - b) := by
+  constructor
+  · intro h0
+    rcases hb with h1 | h1
+    · omega
+    · rw [h0] at h1
+      have := Nat.two_pow_pos (b - 1); omega
+  · intro h0
+    have hb0 : b ≠ 0 := by
+      intro e; rw [e] at hx; simp at hx; exact h0 hx
+    have hb' : 2 ^ (b - 1) ≤ x := by rcases hb with h1 | h1; exact absurd h1 hb0; exact h1
+    refine ⟨by omega, ?_⟩
+    have e : N - 1 - (N - b) = b - 1 := by omega
+    rw [e]
+    apply Nat.div_eq_of_lt_le
+    · simpa using hb'
+    · have e : 2 ^ b = 2 ^ (b - 1) * 2 := by rw [← Nat.pow_succ]; congr 1; omega
+      rw [e] at hx; omega
+
+theorem u32CLZ_safe_gen (x : Nat) (hx : x < 2 ^ 32) : ClzSpec 32 x (u32CLZ_safe x) := by
+  obtain ⟨b, h1, h2⟩ := bitlen_exists x
+  have hb : b ≤ 32 := by
+    rcases h2 with h0 | h0
+    · omega
+    · have : 2 ^ (b - 1) < 2 ^ 32 := Nat.lt_of_le_of_lt h0 hx
+      have := (Nat.pow_lt_pow_iff_right (by decide : 1 < 2)).mp this
+      omega
+  have s0 : ∀ j, x.testBit j = anyBit x j 1 := fun j => (anyBit_one x j).symm
+  have s5 := smear_step (smear_step (smear_step (smear_step (smear_step s0))))
+  have hv := smear_val s5 h1 h2 hb
+  have : u32CLZ_safe x = 32 - b := by
+    unfold u32CLZ_safe
+    simp only []
+    rw [hv]
+    have e : (0xFFFFFFFF : Nat) = 2 ^ 32 - 1 := by norm_num
+    rw [e, not_smear b 32 hb, u32Weight_ones b hb]
+  rw [this]
+  exact clzSpec_of_bitlen (by decide) h1 h2 hb
+
+theorem u64CLZ_safe_gen (x : Nat) (hx : x < 2 ^ 64) : ClzSpec 64 x (u64CLZ_safe x) := by
+  obtain ⟨b, h1, h2⟩ := bitlen_exists x
+  have hb : b ≤ 64 := by
+    rcases h2 with h0 | h0
+    · omega
+    · have : 2 ^ (b - 1) < 2 ^ 64 := Nat.lt_of_le_of_lt h0 hx
+      have := (Nat.pow_lt_pow_iff_right (by decide : 1 < 2)).mp this
+      omega
+  have s0 : ∀ j, x.testBit j = anyBit x j 1 := fun j => (anyBit_one x j).symm
+  have s6 := smear_step (smear_step (smear_step (smear_step (smear_step (smear_step s0)))))
+  have hv := smear_val s6 h1 h2 hb
+  have : u64CLZ_safe x = 64 - b := by
+    unfold u64CLZ_safe
+    simp only []
+    rw [hv]
+    have e : (0xFFFFFFFFFFFFFFFF : Nat) = 2 ^ 64 - 1 := by norm_num
+    rw [e, not_smear b 64 hb, u64Weight_ones b hb]
+  rw [this]
+  exact clzSpec_of_bitlen (by decide) h1 h2 hb
+
+
+/-- trailing zeros: every x ≠ 0 is 2^c · odd -/
+theorem ctz_exists : ∀ x : Nat, x ≠ 0 → ∃ c, x % 2 ^ c = 0 ∧ x / 2 ^ c % 2 = 1 := by
+  intro x
+  induction x using Nat.strong_induction_on with
+  | _ x ih =>
+    intro hx
+    by_cases hodd : x % 2 = 1
+    · exact ⟨0, by simp [Nat.mod_one], by simpa using hodd⟩
+    · have hx2 : x / 2 ≠ 0 := by omega
+      obtain ⟨c, h1, h2⟩ := ih (x / 2) (by omega) hx2
+      refine ⟨c + 1, ?_, ?_⟩
+      · rw [Nat.pow_succ, Nat.mul_comm, Nat.mod_mul, h1]; omega
+      · rw [Nat.pow_succ, Nat.mul_comm, ← Nat.div_div_eq_div_mul]; exact h2
+
+/-- `x | −x` (in N-bit words) has exactly the bits c, …, N−1 set, c = number of trailing zeros -/
+theorem or_neg {N x c : Nat} (hx : x < 2 ^ N) (h1 : x % 2 ^ c = 0) (h2 : x / 2 ^ c % 2 = 1) :
+    c < N ∧ x ||| ((2 ^ N - x % 2 ^ N) % 2 ^ N) = 2 ^ N - 2 ^ c := by
+  have hx0 : 0 < x := by
+    rcases Nat.eq_zero_or_pos x with h | h
+    · rw [h] at h2; simp at h2
+    · exact h
+  have hxq : x = 2 ^ c * (x / 2 ^ c) := by
+    have := Nat.mod_add_div x (2 ^ c); omega
+  generalize hq : x / 2 ^ c = q at *
+  have hq0 : 0 < q := by omega
+  have hcN : c < N := by
+    by_contra hc
+    have : 2 ^ N ≤ 2 ^ c := Nat.pow_le_pow_right (by decide) (by omega)
+    have : 2 ^ c * 1 ≤ 2 ^ c * q := Nat.mul_le_mul_left _ hq0
+    omega
+  refine ⟨hcN, ?_⟩
+  have e1 : (2 ^ N - x % 2 ^ N) % 2 ^ N = 2 ^ N - ((x - 1) + 1) := by
+    rw [Nat.mod_eq_of_lt hx, Nat.mod_eq_of_lt (by omega)]; congr 1; omega
+  have hx1 : x - 1 = 2 ^ c * (q - 1) + (2 ^ c - 1) := by
+    have hp := Nat.two_pow_pos c
+    have : 2 ^ c * q = 2 ^ c * (q - 1) + 2 ^ c := by
+      rw [← Nat.mul_succ]; congr 1; omega
+    omega
+  have hxx : x = 2 ^ c * q + 0 := by omega
+  have e2 : 2 ^ N - 2 ^ c = (2 ^ (N - c) - 1) * 2 ^ c := by
+    rw [Nat.sub_mul, ← Nat.pow_add, Nat.one_mul]; congr 2; omega
+  apply Nat.eq_of_testBit_eq
+  intro j
+  rw [e1, Nat.testBit_or, Nat.testBit_two_pow_sub_succ (by omega), hx1,
+    Nat.testBit_two_pow_mul_add _ (by have := Nat.two_pow_pos c; omega), e2,
+    Nat.testBit_mul_two_pow, Nat.testBit_two_pow_sub_one, Nat.testBit_two_pow_sub_one]
+  conv_lhs => rw [hxx, Nat.testBit_two_pow_mul_add _ (Nat.two_pow_pos c)]
+  by_cases c1 : j < c
+  · have c2 : ¬ c ≤ j := by omega
+    simp [c1, c2]
+  · have c2 : c ≤ j := by omega
+    rw [if_neg c1, if_neg c1]
+    by_cases c3 : j = c
+    · subst c3
+      have hq1 : q.testBit 0 = true := by rw [Nat.testBit_zero]; simpa using h2
+      simp [hq1, hcN]
+    · -- above c the bits of q − 1 are those of q
+      obtain ⟨i, hi⟩ : ∃ i, j - c = i + 1 := ⟨j - c - 1, by omega⟩
+      have hqq : (q - 1).testBit (i + 1) = q.testBit (i + 1) := by
+        rw [Nat.testBit_succ, Nat.testBit_succ]; congr 1; omega
+      rw [hi, hqq]
+      by_cases c4 : j < N
+      · have c5 : j - c < N - c := by omega
+        rw [← hi]
+        cases q.testBit (j - c) <;> simp [c4, c2, c5]
+      · have c5 : ¬ j - c < N - c := by omega
+        have hqf : q.testBit (i + 1) = false := by
+          rw [← hi]
+          have : x.testBit j = false :=
+            Nat.testBit_lt_two_pow (Nat.lt_of_lt_of_le hx (Nat.pow_le_pow_right (by decide) (by omega)))
+          rw [hxx, Nat.testBit_two_pow_mul_add _ (Nat.two_pow_pos c), if_neg c1] at this
+          exact this
+        simp [c4, c2, hqf]
+        omega
+
+theorem u32CTZ_safe_gen (x : Nat) (hx : x < 2 ^ 32) : CtzSpec 32 x (u32CTZ_safe x) := by
+  by_cases h0 : x = 0
+  · subst h0
+    refine ⟨fun _ => by decide, fun h => absurd rfl h⟩
+  · obtain ⟨c, h1, h2⟩ := ctz_exists x h0
+    have e : (0x100000000 : Nat) = 2 ^ 32 := by norm_num
+    obtain ⟨hc, hor⟩ := or_neg hx h1 h2
+    have : u32CTZ_safe x = c := by
+      unfold u32CTZ_safe sizeSub
+      rw [e, hor, u32Weight_ones c (by omega)]
+      omega
+    rw [this]
+    exact ⟨fun h => absurd h h0, fun _ => ⟨hc, h1, h2⟩⟩
+
+theorem u64CTZ_safe_gen (x : Nat) (hx : x < 2 ^ 64) : CtzSpec 64 x (u64CTZ_safe x) := by
+  by_cases h0 : x = 0
+  · subst h0
+    refine ⟨fun _ => by decide, fun h => absurd rfl h⟩
+  · obtain ⟨c, h1, h2⟩ := ctz_exists x h0
+    have e : (0x10000000000000000 : Nat) = 2 ^ 64 := by norm_num
+    obtain ⟨hc, hor⟩ := or_neg hx h1 h2
+    have : u64CTZ_safe x = c := by
+      unfold u64CTZ_safe sizeSub
+      rw [e, hor, u64Weight_ones c (by omega)]
+      omega
+    rw [this]
+    exact ⟨fun h => absurd h h0, fun _ => ⟨hc, h1, h2⟩⟩
+
+end Bits
+
+
+/-! ## wwShLoCarry -/
+
+namespace Bits
+
+theorem getD_append_one (a : List Nat) (c i : Nat) :
+    (a ++ [c]).getD i 0 = if i < a.length then a.getD i 0 else if i = a.length then c else 0 := by
+  simp only [List.getD_eq_getElem?_getD]
+  by_cases h1 : i < a.length
+  · rw [if_pos h1, List.getElem?_append_left h1]
+  · rw [if_neg h1, List.getElem?_append_right (by omega)]
+    by_cases h2 : i = a.length
+    · rw [if_pos h2, h2]; simp
+    · rw [if_neg h2]
+      have : i - a.length ≠ 0 := by omega
+      obtain ⟨k, hk⟩ : ∃ k, i - a.length = k + 1 := ⟨i - a.length - 1, by omega⟩
+      rw [hk]; simp
+
+theorem val_append_one (w : Nat) (a : List Nat) (c : Nat) :
+    val w (a ++ [c]) = val w a + 2 ^ (w * a.length) * c := by
+  induction a with
+  | nil => simp [val]
+  | cons x xs ih =>
+    rw [List.cons_append, val_cons, val_cons, ih, List.length_cons]
+    have : 2 ^ (w * (xs.length + 1)) = 2 ^ w * 2 ^ (w * xs.length) := by
+      rw [← Nat.pow_add]; congr 1; ring
+    rw [this]; ring
+
+theorem Wf_append_one {w : Nat} {a : List Nat} {c : Nat} (h : Wf w a) (hc : c < 2 ^ w) :
+    Wf w (a ++ [c]) := by
+  intro x hx
+  rcases List.mem_append.mp hx with h1 | h1
+  · exact h x h1
+  · rw [List.mem_singleton.mp h1]; exact hc
+
+/-- the words of wwShLoCarry are the words of the shifted (n+1)-word number a ‖ carry, and the
+    returned word is the word just below -/
+theorem wwShLoCarry_words {w : Nat} (hw : 0 < w) (a : List Nat) (shift carry : Nat)
+    (hs : shift < w * (a.length + 1)) :
+    (wwShLoCarry w a shift carry).1.length = a.length ∧
+    (∀ i, (wwShLoCarry w a shift carry).1.getD i 0 =
+      if i < a.length then shLoWord w (a ++ [carry]) (shift / w) (shift % w) i else 0) ∧
+    (wwShLoCarry w a shift carry).2 =
+      ((if shift / w = 0 then 0 else wshr ((a ++ [carry]).getD (shift / w - 1) 0) (shift % w)) |||
+        wshl w ((a ++ [carry]).getD (shift / w) 0) (w - shift % w)) := by
+  have hwsn : shift / w < a.length + 1 := by
+    have := pos_word_lt (a := a ++ [carry]) (w := w) (pos := shift) (by simpa using hs)
+    simpa using this
+  unfold wwShLoCarry
+  simp only [hs, if_true]
+  generalize hn : a.length = n at *
+  generalize hws : shift / w = ws at *
+  generalize hsh : shift % w = sh
+  have hshw : sh < w := by rw [← hsh]; exact Nat.mod_lt _ hw
+  have ga : ∀ i, (a ++ [carry]).getD i 0 =
+      if i < n then a.getD i 0 else if i = n then carry else 0 := by
+    intro i; rw [getD_append_one, hn]
+  by_cases h0 : sh = 0
+  · subst h0
+    simp only [ne_eq, not_true_eq_false, if_false]
+    unfold shLoCopy
+    obtain ⟨h1, h2, h3⟩ := forUp_spec n ws (fun pos => decide (pos + ws < n)) (fun p => rfl)
+      (fun a p => a.getD (p + ws) 0)
+      (fun a b p hab => hab (p + ws) (by omega)) n 0 a hn (by omega)
+    generalize hr : forUp (fun pos => decide (pos + ws < n))
+      (fun pos a => a.set pos (a.getD (pos + ws) 0)) n 0 a = r at *
+    obtain ⟨p1, a1⟩ := r
+    simp only at h1 h2 h3 ⊢
+    have hp1 : p1 = n - ws := by omega
+    have sw0 : ∀ i, shLoWord w (a ++ [carry]) ws 0 i = (a ++ [carry]).getD (i + ws) 0 := by
+      intro i
+      simp only [shLoWord, Nat.sub_zero, wshl_full, Nat.or_zero, wshr, Nat.pow_zero, Nat.div_one]
+    have hret : (if ¬ws = 0 then wshr (a.getD (ws - 1) 0) 0 else 0) =
+        (if ws = 0 then 0 else wshr ((a ++ [carry]).getD (ws - 1) 0) 0) |||
+          wshl w ((a ++ [carry]).getD ws 0) (w - 0) := by
+      rw [Nat.sub_zero, wshl_full, Nat.or_zero, ga (ws - 1)]
+      by_cases c : ws = 0
+      · simp [c]
+      · have : ws - 1 < n := by omega
+        simp [c, this]
+    by_cases c : p1 < n
+    · simp only [c, if_true]
+      have hl2 : (a1.set p1 (wshr carry 0)).length = n := by rw [List.length_set]; exact h2
+      obtain ⟨z1, z2⟩ := zeroUp_spec n (p1 + 1) _ hl2
+      refine ⟨z1, fun i => ?_, hret⟩
+      rw [z2 i, getD_set, h3 i, sw0, ga]
+      simp only [wshr, Nat.pow_zero, Nat.div_one]
+      by_cases c1 : i < n
+      · rw [if_pos c1]
+        by_cases c2 : i + ws < n
+        · have c3 : ¬ p1 + 1 ≤ i := by omega
+          have c4 : ¬ (i = p1 ∧ p1 < a1.length) := by omega
+          have c5 : 0 ≤ i ∧ i + ws < n := by omega
+          rw [if_neg c3, if_neg c4, if_pos c5, if_pos c2]
+        · rw [if_neg c2]
+          by_cases c6 : i = p1
+          · have c3 : ¬ p1 + 1 ≤ i := by omega
+            have c4 : (i = p1 ∧ p1 < a1.length) := by omega
+            have c7 : i + ws = n := by omega
+            rw [if_neg c3, if_pos c4, if_pos c7]
+          · have c3 : p1 + 1 ≤ i := by omega
+            have c7 : ¬ i + ws = n := by omega
+            rw [if_pos c3, if_neg c7]
+      · have c3 : p1 + 1 ≤ i := by omega
+        rw [if_pos c3, if_neg c1]
+    · simp only [c, if_false]
+      obtain ⟨z1, z2⟩ := zeroUp_spec n p1 a1 h2
+      refine ⟨z1, fun i => ?_, hret⟩
+      rw [z2 i, h3 i, sw0, ga]
+      by_cases c1 : i < n
+      · have c3 : ¬ p1 ≤ i := by omega
+        have c5 : 0 ≤ i ∧ i + ws < n := by omega
+        have c2 : i + ws < n := by omega
+        rw [if_neg c3, if_pos c5, if_pos c1, if_pos c2]
+      · have c3 : p1 ≤ i := by omega
+        rw [if_pos c3, if_neg c1]
+  · simp only [ne_eq, h0, not_false_eq_true, if_true]
+    unfold shLoLoop
+    obtain ⟨h1, h2, h3⟩ := forUp_spec n (ws + 1) (fun pos => decide (pos + ws + 1 < n))
+      (fun p => by simp [Nat.add_assoc])
+      (fun a p => wshr (a.getD (p + ws) 0) sh ||| wshl w (a.getD (p + ws + 1) 0) (w - sh))
+      (fun a b p hab => by
+        simp only [hab (p + ws) (by omega), hab (p + ws + 1) (by omega)]) n 0 a hn (by omega)
+    generalize hr : forUp (fun pos => decide (pos + ws + 1 < n))
+      (fun pos a => a.set pos
+        (wshr (a.getD (pos + ws) 0) sh ||| wshl w (a.getD (pos + ws + 1) 0) (w - sh))) n 0 a = r at *
+    obtain ⟨p1, a1⟩ := r
+    simp only at h1 h2 h3 ⊢
+    have hp1 : p1 = n - (ws + 1) := by omega
+    -- the returned word
+    have hret : (if ws < n then
+          (if ¬ws = 0 then wshr (a.getD (ws - 1) 0) sh else 0) ||| wshl w (a.getD ws 0) (w - sh)
+        else (if ¬ws = 0 then wshr (a.getD (ws - 1) 0) sh else 0) ||| wshl w carry (w - sh)) =
+        (if ws = 0 then 0 else wshr ((a ++ [carry]).getD (ws - 1) 0) sh) |||
+          wshl w ((a ++ [carry]).getD ws 0) (w - sh) := by
+      rw [ga (ws - 1), ga ws]
+      have ha : (if ¬ws = 0 then wshr (a.getD (ws - 1) 0) sh else 0) =
+          (if ws = 0 then 0
+            else wshr (if ws - 1 < n then a.getD (ws - 1) 0 else if ws - 1 = n then carry else 0) sh) := by
+        by_cases c : ws = 0
+        · rw [if_neg (not_not.mpr c), if_pos c]
+        · have c2 : ws - 1 < n := by omega
+          rw [if_pos c, if_neg c, if_pos c2]
+      rw [ha]
+      by_cases c' : ws < n
+      · rw [if_pos c', if_pos c']
+      · have c3 : ws = n := by omega
+        rw [if_neg c', if_neg c', if_pos c3]
+    -- normal form of the words
+    have nf : ∀ i, (if i + (ws + 1) < n then
+          wshr (a.getD (i + ws) 0) sh ||| wshl w (a.getD (i + ws + 1) 0) (w - sh)
+        else if i + ws + 1 = n then wshr (a.getD (i + ws) 0) sh ||| wshl w carry (w - sh)
+        else if i + ws = n ∧ i < n then wshr carry sh else 0) =
+        if i < n then shLoWord w (a ++ [carry]) ws sh i else 0 := by
+      intro i
+      unfold shLoWord
+      rw [ga (i + ws), ga (i + ws + 1)]
+      by_cases c1 : i + (ws + 1) < n
+      · have d1 : i < n := by omega
+        have d2 : i + ws < n := by omega
+        have d3 : i + ws + 1 < n := by omega
+        rw [if_pos c1, if_pos d1, if_pos d2, if_pos d3]
+      · rw [if_neg c1]
+        by_cases c2 : i + ws + 1 = n
+        · have d1 : i < n := by omega
+          have d2 : i + ws < n := by omega
+          have d3 : ¬ i + ws + 1 < n := by omega
+          rw [if_pos c2, if_pos d1, if_pos d2, if_neg d3, if_pos c2]
+        · rw [if_neg c2]
+          by_cases c3 : i + ws = n ∧ i < n
+          · have d2 : ¬ i + ws < n := by omega
+            have d3 : ¬ i + ws + 1 < n := by omega
+            rw [if_pos c3, if_pos c3.2, if_neg d2, if_pos c3.1, if_neg d3, if_neg c2, wshl_zero,
+              Nat.or_zero]
+          · rw [if_neg c3]
+            by_cases d1 : i < n
+            · have d2 : ¬ i + ws < n := by omega
+              have d3 : ¬ i + ws + 1 < n := by omega
+              have d4 : ¬ i + ws = n := by omega
+              rw [if_pos d1, if_neg d2, if_neg d4, if_neg d3, if_neg c2, wshl_zero]
+              simp [wshr]
+            · rw [if_neg d1]
+    have hnl : a1.getD (p1 + ws) 0 = a.getD (p1 + ws) 0 := by
+      rw [h3]
+      have : ¬ (0 ≤ p1 + ws ∧ p1 + ws + (ws + 1) < n) := by omega
+      rw [if_neg this]
+    rw [hnl]
+    by_cases cA : p1 + ws < n
+    · simp only [cA, if_true]
+      by_cases cB : p1 + 1 < n
+      · simp only [cB, if_true]
+        obtain ⟨z1, z2⟩ := zeroUp_spec n (p1 + 1 + 1)
+          ((a1.set p1 (wshr (a.getD (p1 + ws) 0) sh ||| wshl w carry (w - sh))).set (p1 + 1)
+            (wshr carry sh)) (by rw [List.length_set, List.length_set]; exact h2)
+        refine ⟨z1, fun i => ?_, hret⟩
+        rw [z2 i, getD_set, getD_set, h3 i, ← nf i, List.length_set, h2]
+        by_cases e1 : i + (ws + 1) < n
+        · have f1 : ¬ p1 + 1 + 1 ≤ i := by omega
+          have f2 : ¬ (i = p1 + 1 ∧ p1 + 1 < n) := by omega
+          have f3 : ¬ (i = p1 ∧ p1 < n) := by omega
+          have f4 : 0 ≤ i ∧ i + (ws + 1) < n := by omega
+          rw [if_neg f1, if_neg f2, if_neg f3, if_pos f4, if_pos e1]
+        · rw [if_neg e1]
+          by_cases e2 : i + ws + 1 = n
+          · have f1 : ¬ p1 + 1 + 1 ≤ i := by omega
+            have f2 : ¬ (i = p1 + 1 ∧ p1 + 1 < n) := by omega
+            have f3 : (i = p1 ∧ p1 < n) := by omega
+            rw [if_neg f1, if_neg f2, if_pos f3, if_pos e2, f3.1]
+          · rw [if_neg e2]
+            by_cases e3 : i + ws = n ∧ i < n
+            · have f1 : ¬ p1 + 1 + 1 ≤ i := by omega
+              have f2 : (i = p1 + 1 ∧ p1 + 1 < n) := by omega
+              rw [if_neg f1, if_pos f2, if_pos e3]
+            · have f1 : p1 + 1 + 1 ≤ i := by omega
+              rw [if_pos f1, if_neg e3]
+      · -- ws = 0
+        simp only [cB, if_false]
+        obtain ⟨z1, z2⟩ := zeroUp_spec n (p1 + 1)
+          (a1.set p1 (wshr (a.getD (p1 + ws) 0) sh ||| wshl w carry (w - sh)))
+          (by rw [List.length_set]; exact h2)
+        refine ⟨z1, fun i => ?_, hret⟩
+        rw [z2 i, getD_set, h3 i, ← nf i, h2]
+        by_cases e1 : i + (ws + 1) < n
+        · have f1 : ¬ p1 + 1 ≤ i := by omega
+          have f3 : ¬ (i = p1 ∧ p1 < n) := by omega
+          have f4 : 0 ≤ i ∧ i + (ws + 1) < n := by omega
+          rw [if_neg f1, if_neg f3, if_pos f4, if_pos e1]
+        · rw [if_neg e1]
+          by_cases e2 : i + ws + 1 = n
+          · have f1 : ¬ p1 + 1 ≤ i := by omega
+            have f3 : (i = p1 ∧ p1 < n) := by omega
+            rw [if_neg f1, if_pos f3, if_pos e2, f3.1]
+          · have f1 : p1 + 1 ≤ i := by omega
+            have e3 : ¬ (i + ws = n ∧ i < n) := by omega
+            rw [if_pos f1, if_neg e2, if_neg e3]
+    · -- ws = n
+      simp only [cA, if_false]
+      by_cases cB : p1 < n
+      · simp only [cB, if_true]
+        obtain ⟨z1, z2⟩ := zeroUp_spec n (p1 + 1) (a1.set p1 (wshr carry sh))
+          (by rw [List.length_set]; exact h2)
+        refine ⟨z1, fun i => ?_, hret⟩
+        rw [z2 i, getD_set, h3 i, ← nf i, h2]
+        have e1 : ¬ i + (ws + 1) < n := by omega
+        have e2 : ¬ i + ws + 1 = n := by omega
+        rw [if_neg e1, if_neg e2]
+        by_cases e3 : i + ws = n ∧ i < n
+        · have f1 : ¬ p1 + 1 ≤ i := by omega
+          have f3 : (i = p1 ∧ p1 < n) := by omega
+          rw [if_neg f1, if_pos f3, if_pos e3]
+        · have f1 : p1 + 1 ≤ i := by omega
+          rw [if_pos f1, if_neg e3]
+      · simp only [cB, if_false]
+        obtain ⟨z1, z2⟩ := zeroUp_spec n p1 a1 h2
+        refine ⟨z1, fun i => ?_, hret⟩
+        rw [z2 i, ← nf i]
+        have f1 : p1 ≤ i := by omega
+        have e1 : ¬ i + (ws + 1) < n := by omega
+        have e2 : ¬ i + ws + 1 = n := by omega
+        have e3 : ¬ (i + ws = n ∧ i < n) := by omega
+        rw [if_pos f1, if_neg e1, if_neg e2, if_neg e3]
+
+theorem shLoWord_bits {w : Nat} (hw : 0 < w) (b : List Nat) (hb : Wf w b) (ws sh i j : Nat)
+    (hsh : sh < w) (hj : j < w) :
+    (shLoWord w b ws sh i).testBit j = (val w b).testBit (w * (i + ws) + (sh + j)) := by
+  rw [testBit_val hw b hb]
+  unfold shLoWord
+  rw [Nat.testBit_or, tb_div, testBit_wshl]
+  by_cases c1 : sh + j < w
+  · obtain ⟨e1, e2⟩ := idx_lo hw (i + ws) (sh + j) c1
+    have c2 : ¬ (w - sh ≤ j) := by omega
+    rw [e1, e2]; simp [c2]
+  · obtain ⟨e1, e2⟩ := idx_hi hw (i + ws) (sh + j) (by omega) (by omega)
+    have c2 : (w - sh ≤ j) := by omega
+    have e3 : j - (w - sh) = sh + j - w := by omega
+    rw [e1, e2, testBit_high (getD_lt hb (i + ws)) (by omega), e3]; simp [c2, hj]
+
+theorem wwShLoCarry_val {w : Nat} (hw : 0 < w) (a : List Nat) (shift carry : Nat) (h : Wf w a)
+    (hc : carry < 2 ^ w) :
+    (wwShLoCarry w a shift carry).1.length = a.length ∧ Wf w (wwShLoCarry w a shift carry).1 ∧
+    val w (wwShLoCarry w a shift carry).1 =
+      ((val w a + carry * 2 ^ (w * a.length)) / 2 ^ shift) % 2 ^ (w * a.length) ∧
+    (wwShLoCarry w a shift carry).2 =
+      ((val w a + carry * 2 ^ (w * a.length)) * 2 ^ w / 2 ^ shift) % 2 ^ w := by
+  have hWf' := Wf_append_one h hc
+  have hV : val w (a ++ [carry]) = val w a + carry * 2 ^ (w * a.length) := by
+    rw [val_append_one, Nat.mul_comm]
+  rw [← hV]
+  generalize hb : a ++ [carry] = b at *
+  by_cases hs : shift < w * (a.length + 1)
+  · obtain ⟨h1, h2, h3⟩ := wwShLoCarry_words hw a shift carry hs
+    rw [hb] at h2 h3
+    have hsh : shift % w < w := Nat.mod_lt _ hw
+    have hss : shift = w * (shift / w) + shift % w := (Nat.div_add_mod shift w).symm
+    generalize shift / w = ws at *
+    generalize shift % w = sh at *
+    have hwl : ∀ i, shLoWord w b ws sh i < 2 ^ w := fun i =>
+      Nat.or_lt_two_pow (wshr_lt _ (getD_lt hWf' _)) (wshl_lt _ _ _)
+    have hWfR : Wf w (wwShLoCarry w a shift carry).1 := by
+      apply Wf_of_getD
+      intro i
+      rw [h2 i]
+      split
+      · exact hwl i
+      · exact Nat.two_pow_pos w
+    refine ⟨h1, hWfR, ?_, ?_⟩
+    · apply Nat.eq_of_testBit_eq
+      intro k
+      rw [testBit_val hw _ hWfR, h2, Nat.testBit_mod_two_pow, tb_div]
+      have hj : k % w < w := Nat.mod_lt _ hw
+      have hk : k = w * (k / w) + k % w := (Nat.div_add_mod k w).symm
+      generalize k / w = i at hk
+      generalize k % w = j at hk hj
+      by_cases c0 : i < a.length
+      · have hkn : k < w * a.length := by
+          have : w * (i + 1) ≤ w * a.length := Nat.mul_le_mul_left w c0
+          rw [Nat.mul_add] at this; omega
+        have hidx : shift + k = w * (i + ws) + (sh + j) := by
+          rw [hss, hk, Nat.mul_add]; omega
+        rw [if_pos c0, shLoWord_bits hw b hWf' ws sh i j hsh hj, hidx]
+        simp [hkn]
+      · have hkn : ¬ k < w * a.length := by
+          have : w * a.length ≤ w * i := Nat.mul_le_mul_left w (Nat.le_of_not_lt c0)
+          omega
+        rw [if_neg c0]; simp [hkn]
+    · rw [h3]
+      apply Nat.eq_of_testBit_eq
+      intro j
+      rw [Nat.testBit_mod_two_pow, tb_div, Nat.testBit_mul_two_pow]
+      by_cases hj : j < w
+      · by_cases c : ws = 0
+        · subst c
+          rw [if_pos rfl, Nat.zero_or, testBit_wshl, testBit_val hw b hWf']
+          by_cases c2 : w - sh ≤ j
+          · have c3 : w ≤ shift + j := by omega
+            have e : shift + j - w = w * 0 + (j - (w - sh)) := by omega
+            obtain ⟨e1, e2⟩ := idx_lo hw 0 (j - (w - sh)) (by omega)
+            rw [e, e1, e2]; simp [hj, c2, c3]
+          · have c3 : ¬ w ≤ shift + j := by omega
+            simp [c2, c3]
+        · rw [if_neg c]
+          have hsw : (wshr (b.getD (ws - 1) 0) sh ||| wshl w (b.getD ws 0) (w - sh))
+              = shLoWord w b (ws - 1) sh 0 := by
+            unfold shLoWord
+            have e1 : 0 + (ws - 1) = ws - 1 := by omega
+            have e2 : ws - 1 + 1 = ws := by omega
+            rw [e1, e2]
+          have c3 : w ≤ shift + j := by
+            have : w * 1 ≤ w * ws := Nat.mul_le_mul_left w (by omega)
+            omega
+          have e : shift + j - w = w * (0 + (ws - 1)) + (sh + j) := by
+            have : w * ws = w * (ws - 1) + w := by
+              have : ws = (ws - 1) + 1 := by omega
+              conv_lhs => rw [this]
+              rw [Nat.mul_add, Nat.mul_one]
+            rw [Nat.zero_add]; omega
+          rw [hsw, shLoWord_bits hw b hWf' (ws - 1) sh 0 j hsh hj, e]
+          simp [hj, c3]
+      · have hlt : ((if ws = 0 then 0 else wshr (b.getD (ws - 1) 0) sh) |||
+            wshl w (b.getD ws 0) (w - sh)) < 2 ^ w := by
+          refine Nat.or_lt_two_pow ?_ (wshl_lt _ _ _)
+          split
+          · exact Nat.two_pow_pos w
+          · exact wshr_lt _ (getD_lt hWf' _)
+        rw [testBit_high hlt (by omega)]; simp [hj]
+  · -- everything is shifted out
+    have hVlt : val w b < 2 ^ (w * (a.length + 1)) := by
+      have hbl : b.length = a.length + 1 := by rw [← hb]; simp
+      have := val_lt b hWf'
+      rw [hbl] at this
+      exact this
+    have hz : wwShLoCarry w a shift carry =
+        (List.replicate a.length 0,
+          if shift - w * (a.length + 1) < w then wshr carry (shift - w * (a.length + 1)) else 0) := by
+      unfold wwShLoCarry wwSetZero; simp only [hs, if_false]
+    rw [hz]
+    refine ⟨List.length_replicate, Wf_replicate_zero _ _, ?_, ?_⟩
+    · rw [val_replicate_zero]
+      have h2 : 2 ^ (w * (a.length + 1)) ≤ 2 ^ shift := Nat.pow_le_pow_right (by decide) (by omega)
+      rw [Nat.div_eq_of_lt (by omega), Nat.zero_mod]
+    · simp only
+      -- V·2^w / 2^shift = carry / 2^s'
+      generalize hs' : shift - w * (a.length + 1) = s'
+      have hm : w * (a.length + 1) = w * a.length + w := by rw [Nat.mul_add, Nat.mul_one]
+      have hshift : shift = w + (w * a.length + s') := by
+        rw [hm] at hs hs'; omega
+      have e1 : val w b * 2 ^ w / 2 ^ shift = carry / 2 ^ s' := by
+        rw [hshift, Nat.pow_add, Nat.mul_comm (val w b), Nat.mul_div_mul_left _ _ (Nat.two_pow_pos w),
+          Nat.pow_add, ← Nat.div_div_eq_div_mul, hV, Nat.mul_comm carry,
+          Nat.add_mul_div_left _ _ (Nat.two_pow_pos _), Nat.div_eq_of_lt (val_lt a h), Nat.zero_add]
+      rw [e1]
+      have hlt : carry / 2 ^ s' < 2 ^ w := Nat.lt_of_le_of_lt (Nat.div_le_self _ _) hc
+      rw [Nat.mod_eq_of_lt hlt]
+      split
+      · rfl
+      · rename_i hge
+        have : 2 ^ w ≤ 2 ^ s' := Nat.pow_le_pow_right (by decide) (by omega)
+        exact (Nat.div_eq_of_lt (by omega)).symm
+
+end Bits
+
+
+/-! ## wwShHiCarry -/
+
+namespace Bits
+
+/-- word `i` of wwShHiCarry's result in terms of a and carry -/
+def shHiCWord (w : Nat) (a : List Nat) (carry ws sh i : Nat) : Nat :=
+  if ws + 1 ≤ i then wshl w (a.getD (i - ws) 0) sh ||| wshr (a.getD (i - ws - 1) 0) (w - sh)
+  else if i = ws then wshl w (a.getD 0 0) sh ||| wshr carry (w - sh)
+  else if i + 1 = ws then wshl w carry sh else 0
+
+theorem shHiCWord_eq (w : Nat) (a : List Nat) (carry ws sh i : Nat) :
+    shHiCWord w a carry ws sh i = shHiWord w (carry :: a) ws sh (i + 1) := by
+  unfold shHiCWord shHiWord
+  by_cases c1 : ws + 1 ≤ i
+  · have d1 : ¬ i + 1 < ws := by omega
+    have d2 : ¬ i + 1 = ws := by omega
+    obtain ⟨k, hk⟩ : ∃ k, i + 1 - ws = k + 1 + 1 := ⟨i - ws - 1, by omega⟩
+    have ea : i - ws = k + 1 := by omega
+    have eb : i - ws - 1 = k := by omega
+    have ec : i + 1 - ws - 1 = k + 1 := by omega
+    rw [if_pos c1, if_neg d1, if_neg d2, ec, hk, eb, ea, List.getD_cons_succ, List.getD_cons_succ]
+  · rw [if_neg c1]
+    by_cases c2 : i = ws
+    · subst c2
+      have d1 : ¬ i + 1 < i := by omega
+      have d2 : ¬ i + 1 = i := by omega
+      have e1 : i + 1 - i = 0 + 1 := by omega
+      have e2 : i + 1 - i - 1 = 0 := by omega
+      rw [if_pos rfl, if_neg d1, if_neg d2, e2, e1, List.getD_cons_succ, List.getD_cons_zero]
+    · rw [if_neg c2]
+      by_cases c3 : i + 1 = ws
+      · have d1 : ¬ i + 1 < ws := by omega
+        have e1 : i + 1 - ws = 0 := by omega
+        rw [if_pos c3, if_neg d1, if_pos c3, e1, List.getD_cons_zero, Nat.or_zero]
+      · have d1 : i + 1 < ws := by omega
+        rw [if_neg c3, if_pos d1]
+
+theorem wwShHiCarry_words {w : Nat} (hw : 0 < w) (a : List Nat) (shift carry : Nat) (h : Wf w a)
+    (hc : carry < 2 ^ w) (hs : shift < w * (a.length + 1)) :
+    (wwShHiCarry w a shift carry).1.length = a.length ∧
+    (∀ i, (wwShHiCarry w a shift carry).1.getD i 0 =
+      if i < a.length then shHiCWord w a carry (shift / w) (shift % w) i else 0) ∧
+    (wwShHiCarry w a shift carry).2 = shHiCWord w a carry (shift / w) (shift % w) a.length := by
+  have hwsn : shift / w < a.length + 1 := by
+    have := pos_word_lt (a := a ++ [carry]) (w := w) (pos := shift) (by simpa using hs)
+    simpa using this
+  unfold wwShHiCarry
+  simp only [hs, if_true]
+  generalize hn : a.length = n at *
+  generalize hws : shift / w = ws at *
+  generalize hsh : shift % w = sh
+  have hshw : sh < w := by rw [← hsh]; exact Nat.mod_lt _ hw
+  have hbeyond : ∀ i, n ≤ i → a.getD i 0 = 0 := fun i hi => getD_beyond a i (by omega)
+  by_cases h0 : sh = 0
+  · subst h0
+    simp only [ne_eq, not_true_eq_false, if_false]
+    have e0 : ∀ x, x < 2 ^ w → wshl w x 0 = x := by
+      intro x hx
+      simp only [wshl, Nat.pow_zero, Nat.mul_one]; exact Nat.mod_eq_of_lt hx
+    have e1 : ∀ x, x < 2 ^ w → wshr x (w - 0) = 0 := by
+      intro x hx
+      simp only [wshr, Nat.sub_zero]; exact Nat.div_eq_of_lt hx
+    unfold shHiCopy
+    obtain ⟨h1, h2, h3⟩ := forDown_spec n ws (fun q => q != 0 && decide (q > ws)) (fun p => by
+        by_cases hp : ws < p
+        · have : p ≠ 0 := by omega
+          simp [hp, this]
+        · simp [hp])
+      (fun a p => a.getD (p - ws) 0)
+      (fun a b p hab => hab (p - ws) (by omega)) n n a hn (by omega) (by omega)
+    generalize hr : forDown (fun q => q != 0 && decide (q > ws))
+      (fun pos a => a.set pos (a.getD (pos - ws) 0)) n n a = r at *
+    obtain ⟨q1, a1⟩ := r
+    simp only at h1 h2 h3 ⊢
+    have hq1 : q1 = ws := by omega
+    subst hq1
+    -- the returned word
+    have hret : (if ¬q1 = 0 then wshl w (a.getD (n - q1) 0) 0 else 0) = shHiCWord w a carry q1 0 n := by
+      unfold shHiCWord
+      by_cases c1 : q1 + 1 ≤ n
+      · rw [if_pos c1, e1 _ (getD_lt h _), Nat.or_zero]
+        by_cases c2 : q1 = 0
+        · subst c2; rw [if_neg (not_not.mpr rfl), Nat.sub_zero, hbeyond n (Nat.le_refl _)]; simp [wshl]
+        · rw [if_pos c2]
+      · have c3 : n = q1 := by omega
+        rw [if_neg c1, if_pos c3, e1 _ hc, Nat.or_zero, c3, Nat.sub_self]
+        by_cases c2 : q1 = 0
+        · rw [if_neg (not_not.mpr c2), hbeyond 0 (by omega)]; simp [wshl]
+        · rw [if_pos c2]
+    -- the words
+    have nf : ∀ i, i < n → (if i + 1 = q1 then wshl w carry 0
+        else if q1 ≤ i then a.getD (i - q1) 0 else 0) = shHiCWord w a carry q1 0 i := by
+      intro i hi
+      unfold shHiCWord
+      by_cases c1 : q1 + 1 ≤ i
+      · have d1 : ¬ i + 1 = q1 := by omega
+        have d2 : q1 ≤ i := by omega
+        rw [if_neg d1, if_pos d2, if_pos c1, e0 _ (getD_lt h _), e1 _ (getD_lt h _), Nat.or_zero]
+      · rw [if_neg c1]
+        by_cases c2 : i = q1
+        · have d1 : ¬ i + 1 = q1 := by omega
+          have d2 : q1 ≤ i := by omega
+          rw [if_neg d1, if_pos d2, if_pos c2, e0 _ (getD_lt h _), e1 _ hc, Nat.or_zero, c2,
+            Nat.sub_self]
+        · rw [if_neg c2]
+          by_cases c3 : i + 1 = q1
+          · rw [if_pos c3, if_pos c3]
+          · have d2 : ¬ q1 ≤ i := by omega
+            rw [if_neg c3, if_neg d2, if_neg c3]
+    by_cases cB : q1 ≠ 0
+    · simp only [cB, not_false_eq_true, if_true]
+      obtain ⟨z1, z2⟩ := zeroDown_spec n (q1 - 1) (a1.set (q1 - 1) (wshl w carry 0))
+        (by rw [List.length_set]; exact h2) (by omega)
+      refine ⟨z1, fun i => ?_, by rw [← hret, if_pos cB]⟩
+      rw [z2 i, getD_set, h3 i, h2]
+      by_cases ci : i < n
+      · rw [if_pos ci, ← nf i ci]
+        by_cases c3 : i + 1 = q1
+        · have f1 : ¬ i < q1 - 1 := by omega
+          have f2 : i = q1 - 1 ∧ q1 - 1 < n := by omega
+          rw [if_neg f1, if_pos f2, if_pos c3]
+        · rw [if_neg c3]
+          by_cases c4 : q1 ≤ i
+          · have f1 : ¬ i < q1 - 1 := by omega
+            have f2 : ¬ (i = q1 - 1 ∧ q1 - 1 < n) := by omega
+            have f3 : q1 ≤ i ∧ i < n := by omega
+            rw [if_neg f1, if_neg f2, if_pos f3, if_pos c4]
+          · have f1 : i < q1 - 1 := by omega
+            rw [if_pos f1, if_neg c4]
+      · have f1 : ¬ i < q1 - 1 := by omega
+        have f2 : ¬ (i = q1 - 1 ∧ q1 - 1 < n) := by omega
+        have f3 : ¬ (q1 ≤ i ∧ i < n) := by omega
+        rw [if_neg ci, if_neg f1, if_neg f2, if_neg f3, hbeyond i (by omega)]
+    · have cq : q1 = 0 := by omega
+      simp only [cB, if_false]
+      obtain ⟨z1, z2⟩ := zeroDown_spec n q1 a1 h2 (by omega)
+      refine ⟨z1, fun i => ?_, by rw [← hret, if_neg (not_not.mpr cq)]⟩
+      rw [z2 i, h3 i]
+      by_cases ci : i < n
+      · have f1 : ¬ i < q1 := by omega
+        have f3 : q1 ≤ i ∧ i < n := by omega
+        have d1 : ¬ i + 1 = q1 := by omega
+        rw [if_pos ci, ← nf i ci, if_neg f1, if_pos f3, if_neg d1, if_pos f3.1]
+      · have f1 : ¬ i < q1 := by omega
+        have f3 : ¬ (q1 ≤ i ∧ i < n) := by omega
+        rw [if_neg ci, if_neg f1, if_neg f3, hbeyond i (by omega)]
+  · simp only [ne_eq, h0, not_false_eq_true, if_true]
+    unfold shHiLoop
+    obtain ⟨h1, h2, h3⟩ := forDown_spec n (ws + 1) (fun q => decide (q > ws + 1))
+      (fun p => rfl)
+      (fun a p => wshl w (a.getD (p - ws) 0) sh ||| wshr (a.getD (p - ws - 1) 0) (w - sh))
+      (fun a b p hab => by
+        simp only [hab (p - ws) (by omega), hab (p - ws - 1) (by omega)]) n n a hn (by omega)
+        (by omega)
+    generalize hr : forDown (fun q => decide (q > ws + 1))
+      (fun pos a => a.set pos
+        (wshl w (a.getD (pos - ws) 0) sh ||| wshr (a.getD (pos - ws - 1) 0) (w - sh))) n n a = r at *
+    obtain ⟨q1, a1⟩ := r
+    simp only at h1 h2 h3 ⊢
+    have hret : (if ws < n then
+          (if ¬ws = 0 then wshl w (a.getD (n - ws) 0) sh else 0) |||
+            wshr (a.getD (n - ws - 1) 0) (w - sh)
+        else (if ¬ws = 0 then wshl w (a.getD (n - ws) 0) sh else 0) ||| wshr carry (w - sh)) =
+        shHiCWord w a carry ws sh n := by
+      unfold shHiCWord
+      have hr0 : (if ¬ws = 0 then wshl w (a.getD (n - ws) 0) sh else 0) =
+          wshl w (a.getD (n - ws) 0) sh := by
+        by_cases c : ws = 0
+        · rw [if_neg (not_not.mpr c), c, Nat.sub_zero, hbeyond n (Nat.le_refl _), wshl_zero]
+        · rw [if_pos c]
+      rw [hr0]
+      by_cases c1 : ws + 1 ≤ n
+      · have c2 : ws < n := by omega
+        rw [if_pos c1, if_pos c2]
+      · have c2 : ¬ ws < n := by omega
+        have c3 : n = ws := by omega
+        rw [if_neg c1, if_neg c2, if_pos c3, c3, Nat.sub_self]
+    have hnl : a1.getD 0 0 = a.getD 0 0 := by
+      rw [h3]
+      have : ¬ (ws + 1 ≤ 0 ∧ 0 < n) := by omega
+      rw [if_neg this]
+    rw [hret]
+    by_cases cA : q1 ≠ 0 ∧ q1 > ws
+    · have hq1 : q1 = ws + 1 := by omega
+      subst hq1
+      simp only [if_pos cA, Nat.add_sub_cancel, Nat.sub_self, hnl]
+      by_cases cB : ws ≠ 0
+      · simp only [if_pos cB]
+        obtain ⟨z1, z2⟩ := zeroDown_spec n (ws - 1)
+          ((a1.set ws (wshl w (a.getD 0 0) sh ||| wshr carry (w - sh))).set (ws - 1)
+            (wshl w carry sh)) (by rw [List.length_set, List.length_set]; exact h2) (by omega)
+        refine ⟨z1, fun i => ?_, trivial⟩
+        rw [z2 i, getD_set, getD_set, h3 i, List.length_set, h2]
+        unfold shHiCWord
+        by_cases ci : i < n
+        · rw [if_pos ci]
+          by_cases e1 : ws + 1 ≤ i
+          · have f1 : ¬ i < ws - 1 := by omega
+            have f2 : ¬ (i = ws - 1 ∧ ws - 1 < n) := by omega
+            have f3 : ¬ (i = ws ∧ ws < n) := by omega
+            have f4 : ws + 1 ≤ i ∧ i < n := by omega
+            rw [if_neg f1, if_neg f2, if_neg f3, if_pos f4, if_pos e1]
+          · rw [if_neg e1]
+            by_cases e2 : i = ws
+            · have f1 : ¬ i < ws - 1 := by omega
+              have f2 : ¬ (i = ws - 1 ∧ ws - 1 < n) := by omega
+              have f3 : (i = ws ∧ ws < n) := by omega
+              rw [if_neg f1, if_neg f2, if_pos f3, if_pos e2]
+            · rw [if_neg e2]
+              by_cases e3 : i + 1 = ws
+              · have f1 : ¬ i < ws - 1 := by omega
+                have f2 : (i = ws - 1 ∧ ws - 1 < n) := by omega
+                rw [if_neg f1, if_pos f2, if_pos e3]
+              · have f1 : i < ws - 1 := by omega
+                rw [if_pos f1, if_neg e3]
+        · have f1 : ¬ i < ws - 1 := by omega
+          have f2 : ¬ (i = ws - 1 ∧ ws - 1 < n) := by omega
+          have f3 : ¬ (i = ws ∧ ws < n) := by omega
+          have f4 : ¬ (ws + 1 ≤ i ∧ i < n) := by omega
+          rw [if_neg ci, if_neg f1, if_neg f2, if_neg f3, if_neg f4, hbeyond i (by omega)]
+      · have cw : ws = 0 := by omega
+        simp only [if_neg cB]
+        obtain ⟨z1, z2⟩ := zeroDown_spec n ws
+          (a1.set ws (wshl w (a.getD 0 0) sh ||| wshr carry (w - sh)))
+          (by rw [List.length_set]; exact h2) (by omega)
+        refine ⟨z1, fun i => ?_, trivial⟩
+        rw [z2 i, getD_set, h3 i, h2]
+        unfold shHiCWord
+        by_cases ci : i < n
+        · rw [if_pos ci]
+          by_cases e1 : ws + 1 ≤ i
+          · have f1 : ¬ i < ws := by omega
+            have f3 : ¬ (i = ws ∧ ws < n) := by omega
+            have f4 : ws + 1 ≤ i ∧ i < n := by omega
+            rw [if_neg f1, if_neg f3, if_pos f4, if_pos e1]
+          · have e2 : i = ws := by omega
+            have f1 : ¬ i < ws := by omega
+            have f3 : (i = ws ∧ ws < n) := by omega
+            rw [if_neg e1, if_neg f1, if_pos f3, if_pos e2]
+        · have f1 : ¬ i < ws := by omega
+          have f3 : ¬ (i = ws ∧ ws < n) := by omega
+          have f4 : ¬ (ws + 1 ≤ i ∧ i < n) := by omega
+          rw [if_neg ci, if_neg f1, if_neg f3, if_neg f4, hbeyond i (by omega)]
+    · -- ws = n : nothing but the carry word remains
+      have hq1 : q1 = n := by omega
+      have hwn : ws = n := by omega
+      subst hq1
+      simp only [if_neg cA]
+      by_cases cB : q1 ≠ 0
+      · simp only [if_pos cB]
+        obtain ⟨z1, z2⟩ := zeroDown_spec q1 (q1 - 1) (a1.set (q1 - 1) (wshl w carry sh))
+          (by rw [List.length_set]; exact h2) (by omega)
+        refine ⟨z1, fun i => ?_, trivial⟩
+        rw [z2 i, getD_set, h3 i, h2]
+        unfold shHiCWord
+        by_cases ci : i < q1
+        · rw [if_pos ci]
+          have e1 : ¬ ws + 1 ≤ i := by omega
+          have e2 : ¬ i = ws := by omega
+          rw [if_neg e1, if_neg e2]
+          by_cases e3 : i + 1 = ws
+          · have f1 : ¬ i < q1 - 1 := by omega
+            have f2 : (i = q1 - 1 ∧ q1 - 1 < q1) := by omega
+            rw [if_neg f1, if_pos f2, if_pos e3]
+          · have f1 : i < q1 - 1 := by omega
+            rw [if_pos f1, if_neg e3]
+        · have f1 : ¬ i < q1 - 1 := by omega
+          have f2 : ¬ (i = q1 - 1 ∧ q1 - 1 < q1) := by omega
+          have f4 : ¬ (ws + 1 ≤ i ∧ i < q1) := by omega
+          rw [if_neg ci, if_neg f1, if_neg f2, if_neg f4, hbeyond i (by omega)]
+      · have cq : q1 = 0 := by omega
+        simp only [if_neg cB]
+        obtain ⟨z1, z2⟩ := zeroDown_spec q1 q1 a1 h2 (by omega)
+        refine ⟨z1, fun i => ?_, trivial⟩
+        have ci : ¬ i < q1 := by omega
+        have f4 : ¬ (ws + 1 ≤ i ∧ i < q1) := by omega
+        rw [z2 i, h3 i, if_neg ci, if_neg ci, if_neg f4, hbeyond i (by omega)]
+
+theorem shHiWord_lt {w : Nat} (b : List Nat) (hb : Wf w b) (ws sh i : Nat) :
+    shHiWord w b ws sh i < 2 ^ w := by
+  unfold shHiWord
+  split
+  · exact Nat.two_pow_pos w
+  · refine Nat.or_lt_two_pow (wshl_lt _ _ _) ?_
+    split
+    · exact Nat.two_pow_pos w
+    · exact wshr_lt _ (getD_lt hb _)
+
+theorem shHiWord_bits {w : Nat} (hw : 0 < w) (b : List Nat) (hb : Wf w b) (ws sh i j : Nat)
+    (hsh : sh < w) (hj : j < w) :
+    (shHiWord w b ws sh i).testBit j = (val w b * 2 ^ (w * ws + sh)).testBit (w * i + j) := by
+  rw [Nat.testBit_mul_two_pow]
+  unfold shHiWord
+  by_cases c1 : i < ws
+  · have : ¬ w * ws + sh ≤ w * i + j := by
+      have : w * (i + 1) ≤ w * ws := Nat.mul_le_mul_left w c1
+      rw [Nat.mul_add] at this; omega
+    rw [if_pos c1]; simp [this]
+  · rw [if_neg c1, Nat.testBit_or, testBit_wshl]
+    have hmul : w * i = w * (i - ws) + w * ws := by
+      rw [← Nat.mul_add]; congr 1; omega
+    by_cases c2 : sh ≤ j
+    · have c3 : w * ws + sh ≤ w * i + j := by omega
+      have hidx : w * i + j - (w * ws + sh) = w * (i - ws) + (j - sh) := by omega
+      obtain ⟨e1, e2⟩ := idx_lo hw (i - ws) (j - sh) (by omega)
+      have e4 : (if i = ws then 0 else wshr (b.getD (i - ws - 1) 0) (w - sh)).testBit j = false := by
+        split
+        · exact Nat.zero_testBit _
+        · rw [tb_div]; exact testBit_high (getD_lt hb _) (by omega)
+      rw [testBit_val hw b hb, hidx, e1, e2, e4]
+      simp [c2, c3, hj]
+    · have e5 : (decide (j < w) && (decide (sh ≤ j) && (b.getD (i - ws) 0).testBit (j - sh)))
+          = false := by simp [c2]
+      rw [e5, Bool.false_or]
+      by_cases c4 : i = ws
+      · have c3 : ¬ w * ws + sh ≤ w * i + j := by subst c4; omega
+        rw [if_pos c4]; simp [c3]
+      · have c3 : w * ws + sh ≤ w * i + j := by
+          have : w * (ws + 1) ≤ w * i := Nat.mul_le_mul_left w (by omega)
+          rw [Nat.mul_add] at this; omega
+        have hmul2 : w * i = w * (i - ws - 1) + w * ws + w := by
+          have : i = (i - ws - 1) + ws + 1 := by omega
+          conv_lhs => rw [this]
+          rw [Nat.mul_add, Nat.mul_add, Nat.mul_one]
+        have hidx : w * i + j - (w * ws + sh) = w * (i - ws - 1) + (w - sh + j) := by omega
+        obtain ⟨e1, e2⟩ := idx_lo hw (i - ws - 1) (w - sh + j) (by omega)
+        rw [if_neg c4, tb_div, testBit_val hw b hb, hidx, e1, e2]
+        simp [c3]
+
+theorem wwShHiCarry_val {w : Nat} (hw : 0 < w) (a : List Nat) (shift carry : Nat) (h : Wf w a)
+    (hc : carry < 2 ^ w) :
+    (wwShHiCarry w a shift carry).1.length = a.length ∧ Wf w (wwShHiCarry w a shift carry).1 ∧
+    val w (wwShHiCarry w a shift carry).1 =
+      ((carry + val w a * 2 ^ w) * 2 ^ shift / 2 ^ w) % 2 ^ (w * a.length) ∧
+    (wwShHiCarry w a shift carry).2 =
+      ((carry + val w a * 2 ^ w) * 2 ^ shift / 2 ^ (w * (a.length + 1))) % 2 ^ w := by
+  have hWf' : Wf w (carry :: a) := Wf_cons.mpr ⟨hc, h⟩
+  have hV : val w (carry :: a) = carry + val w a * 2 ^ w := by rw [val_cons, Nat.mul_comm]
+  rw [← hV]
+  by_cases hs : shift < w * (a.length + 1)
+  · obtain ⟨h1, h2, h3⟩ := wwShHiCarry_words hw a shift carry h hc hs
+    have hsh : shift % w < w := Nat.mod_lt _ hw
+    have hss : shift = w * (shift / w) + shift % w := (Nat.div_add_mod shift w).symm
+    generalize shift / w = ws at *
+    generalize shift % w = sh at *
+    generalize hb : carry :: a = b at *
+    have hWfR : Wf w (wwShHiCarry w a shift carry).1 := by
+      apply Wf_of_getD
+      intro i
+      rw [h2 i]
+      split
+      · rw [shHiCWord_eq, hb]; exact shHiWord_lt b hWf' _ _ _
+      · exact Nat.two_pow_pos w
+    refine ⟨h1, hWfR, ?_, ?_⟩
+    · apply Nat.eq_of_testBit_eq
+      intro k
+      rw [testBit_val hw _ hWfR, h2, Nat.testBit_mod_two_pow, tb_div]
+      have hj : k % w < w := Nat.mod_lt _ hw
+      have hk : k = w * (k / w) + k % w := (Nat.div_add_mod k w).symm
+      generalize k / w = i at hk
+      generalize k % w = j at hk hj
+      by_cases c0 : i < a.length
+      · have hkn : k < w * a.length := by
+          have : w * (i + 1) ≤ w * a.length := Nat.mul_le_mul_left w c0
+          rw [Nat.mul_add] at this; omega
+        have hidx : w + k = w * (i + 1) + j := by rw [hk, Nat.mul_add]; omega
+        rw [if_pos c0, shHiCWord_eq, hb, shHiWord_bits hw b hWf' ws sh (i + 1) j hsh hj, hidx, ← hss]
+        simp [hkn]
+      · have hkn : ¬ k < w * a.length := by
+          have : w * a.length ≤ w * i := Nat.mul_le_mul_left w (Nat.le_of_not_lt c0)
+          omega
+        rw [if_neg c0]; simp [hkn]
+    · rw [h3, shHiCWord_eq, hb]
+      apply Nat.eq_of_testBit_eq
+      intro j
+      rw [Nat.testBit_mod_two_pow, tb_div]
+      by_cases hj : j < w
+      · rw [shHiWord_bits hw b hWf' ws sh (a.length + 1) j hsh hj, ← hss]; simp [hj]
+      · rw [testBit_high (shHiWord_lt b hWf' _ _ _) (by omega)]; simp [hj]
+  · have hz : wwShHiCarry w a shift carry =
+        (List.replicate a.length 0,
+          if shift - w * (a.length + 1) < w then wshl w carry (shift - w * (a.length + 1)) else 0) := by
+      unfold wwShHiCarry wwSetZero; simp only [hs, if_false]
+    rw [hz]
+    have hm : w * (a.length + 1) = w * a.length + w := by rw [Nat.mul_add, Nat.mul_one]
+    generalize hs' : shift - w * (a.length + 1) = s'
+    have hshift : shift = w + (w * a.length + s') := by rw [hm] at hs hs'; omega
+    refine ⟨List.length_replicate, Wf_replicate_zero _ _, ?_, ?_⟩
+    · rw [val_replicate_zero, hshift, Nat.pow_add, Nat.mul_comm (2 ^ w), ← Nat.mul_assoc,
+        Nat.mul_div_cancel _ (Nat.two_pow_pos w), Nat.pow_add, Nat.mul_comm (2 ^ (w * a.length)),
+        ← Nat.mul_assoc, Nat.mul_mod_left]
+    · simp only
+      have e1 : val w (carry :: a) * 2 ^ shift / 2 ^ (w * (a.length + 1))
+          = val w (carry :: a) * 2 ^ s' := by
+        have : shift = w * (a.length + 1) + s' := by rw [hm]; omega
+        rw [this, Nat.pow_add, Nat.mul_comm (2 ^ (w * (a.length + 1))), ← Nat.mul_assoc,
+          Nat.mul_div_cancel _ (Nat.two_pow_pos _)]
+      rw [e1, hV]
+      have e2 : (carry + val w a * 2 ^ w) * 2 ^ s' = carry * 2 ^ s' + 2 ^ w * (val w a * 2 ^ s') := by
+        ring
+      rw [e2, Nat.add_mul_mod_self_left]
+      split
+      · rfl
+      · rename_i hge
+        have : 2 ^ s' = 2 ^ w * 2 ^ (s' - w) := by rw [← Nat.pow_add]; congr 1; omega
+        rw [this, ← Nat.mul_assoc, Nat.mul_comm carry, Nat.mul_assoc, Nat.mul_mod_right]
+
+end Bits
+
+
+/-! ## wwOctetSize -/
+
+namespace Bits
+
+theorem mask_octet_bits (p j : Nat) :
+    (0xFF * 2 ^ (8 * p)).testBit j = (decide (8 * p ≤ j) && decide (j - 8 * p < 8)) := by
+  have : (0xFF : Nat) = 2 ^ 8 - 1 := by norm_num
+  rw [this, Nat.testBit_mul_two_pow, Nat.testBit_two_pow_sub_one]
+
+theorem and_octet_zero_iff {x p : Nat} (hx : x < 2 ^ (8 * (p + 1))) :
+    x &&& (0xFF * 2 ^ (8 * p)) = 0 ↔ x < 2 ^ (8 * p) := by
+  constructor
+  · intro h
+    apply Nat.lt_pow_two_of_testBit
+    intro i hi
+    by_cases c : i < 8 * (p + 1)
+    · have := congrArg (fun y => y.testBit i) h
+      simp only [Nat.testBit_and, mask_octet_bits, Nat.zero_testBit] at this
+      have c1 : 8 * p ≤ i := hi
+      have c2 : i - 8 * p < 8 := by omega
+      simpa [c1, c2] using this
+    · exact Nat.testBit_lt_two_pow (Nat.lt_of_lt_of_le hx (Nat.pow_le_pow_right (by decide) (by omega)))
+  · intro h
+    apply Nat.eq_of_testBit_eq
+    intro j
+    rw [Nat.testBit_and, mask_octet_bits, Nat.zero_testBit]
+    by_cases c : 8 * p ≤ j
+    · rw [Nat.testBit_lt_two_pow (Nat.lt_of_lt_of_le h (Nat.pow_le_pow_right (by decide) c))]
+      rfl
+    · simp [c]
+
+/-- the octet scan of the top word: q = index of the highest non-zero octet + 1 -/
+theorem octetLoop_spec (x : Nat) (hx0 : x ≠ 0) : ∀ p, x < 2 ^ (8 * p) →
+    1 ≤ wwOctetSizeLoop x p (0xFF * 2 ^ (8 * (p - 1))) ∧
+    wwOctetSizeLoop x p (0xFF * 2 ^ (8 * (p - 1))) ≤ p ∧
+    x < 2 ^ (8 * wwOctetSizeLoop x p (0xFF * 2 ^ (8 * (p - 1)))) ∧
+    2 ^ (8 * (wwOctetSizeLoop x p (0xFF * 2 ^ (8 * (p - 1))) - 1)) ≤ x := by
+  intro p
+  induction p with
+  | zero => intro hx; simp at hx; omega
+  | succ p ih =>
+    intro hx
+    simp only [wwOctetSizeLoop, Nat.add_sub_cancel]
+    by_cases c : x &&& (0xFF * 2 ^ (8 * p)) = 0
+    · have hlt := (and_octet_zero_iff hx).mp c
+      have hp : p ≠ 0 := by
+        intro e; subst e; simp at hlt; exact hx0 hlt
+      have hmask : (0xFF * 2 ^ (8 * p)) >>> 8 = 0xFF * 2 ^ (8 * (p - 1)) := by
+        have e : 8 * p = 8 * (p - 1) + 8 := by omega
+        rw [Nat.shiftRight_eq_div_pow, e, Nat.pow_add, ← Nat.mul_assoc,
+          Nat.mul_div_cancel _ (Nat.two_pow_pos 8)]
+      have hb : (x &&& 0xFF * 2 ^ (8 * p) == 0) = true := by simp [c]
+      rw [hb, if_pos rfl, hmask]
+      obtain ⟨h1, h2, h3, h4⟩ := ih hlt
+      exact ⟨h1, by omega, h3, h4⟩
+    · have hb : (x &&& 0xFF * 2 ^ (8 * p) == 0) = false := by simp [c]
+      rw [hb]
+      simp only [Bool.false_eq_true, if_false, Nat.add_sub_cancel]
+      refine ⟨by omega, Nat.le_refl _, hx, ?_⟩
+      by_contra hlt
+      exact c ((and_octet_zero_iff hx).mpr (by omega))
+
+/-- the top non-zero word is the number divided by 2^(w(m-1)) -/
+theorem val_top {w : Nat} (hw : 0 < w) (a : List Nat) (h : Wf w a) (m : Nat) (hm : 0 < m)
+    (hz : ∀ i, m ≤ i → a.getD i 0 = 0) : val w a / 2 ^ (w * (m - 1)) = a.getD (m - 1) 0 := by
+  apply Nat.eq_of_testBit_eq
+  intro j
+  rw [tb_div, testBit_val hw a h]
+  by_cases c : j < w
+  · obtain ⟨e1, e2⟩ := idx_lo hw (m - 1) j c
+    rw [e1, e2]
+  · have : m ≤ (w * (m - 1) + j) / w := by
+      rw [Nat.mul_add_div hw]
+      have : 1 ≤ j / w := (Nat.one_le_div_iff hw).mpr (by omega)
+      omega
+    rw [hz _ this, Nat.zero_testBit, testBit_high (getD_lt h _) (by omega)]
+
+theorem wwOctetSize_gen {w : Nat} (O : Nat) (hO : 0 < O) (hw8 : w = 8 * O) (a : List Nat)
+    (h : Wf w a) :
+    val w a < 2 ^ (8 * wwOctetSize w a) ∧
+    (0 < wwOctetSize w a → 2 ^ (8 * (wwOctetSize w a - 1)) ≤ val w a) ∧
+    wwOctetSize w a ≤ O * a.length := by
+  have hw : 0 < w := by omega
+  obtain ⟨h1, h2, h3⟩ := wwWordSize_spec' a
+  unfold wwOctetSize
+  simp only
+  generalize wwWordSize a = m at *
+  by_cases hm : m = 0
+  · subst hm
+    have hv : val w a = 0 := by
+      apply Nat.eq_of_testBit_eq; intro k
+      rw [testBit_val hw a h, h2 _ (Nat.zero_le _), Nat.zero_testBit, Nat.zero_testBit]
+    simp [hv]
+  · have hmp : 0 < m := Nat.pos_of_ne_zero hm
+    have htop := h3 hmp
+    have hlt := getD_lt h (m - 1)
+    have hwO : w / 8 = O := by rw [hw8]; omega
+    rw [if_neg hm, hwO]
+    have hmask : wshl w 0xFF (8 * (O - 1)) = 0xFF * 2 ^ (8 * (O - 1)) := by
+      unfold wshl
+      apply Nat.mod_eq_of_lt
+      have e : w = 8 * (O - 1) + 8 := by omega
+      rw [e, Nat.pow_add]
+      rw [Nat.mul_comm (2 ^ (8 * (O - 1)))]
+      exact Nat.mul_lt_mul_of_pos_right (by norm_num : (0xFF : Nat) < 2 ^ 8) (Nat.two_pow_pos _)
+    have e1 : O - 1 + 1 = O := by omega
+    rw [hmask, e1]
+    have hx : a.getD (m - 1) 0 < 2 ^ (8 * O) := by rw [← hw8]; exact hlt
+    obtain ⟨q1, q2, q3, q4⟩ := octetLoop_spec _ htop O hx
+    generalize wwOctetSizeLoop (a.getD (m - 1) 0) O (0xFF * 2 ^ (8 * (O - 1))) = q at *
+    have htopv := val_top hw a h m hmp h2
+    have e8 : 8 * ((m - 1) * O + q) = w * (m - 1) + 8 * q := by rw [hw8]; ring
+    refine ⟨?_, fun _ => ?_, ?_⟩
+    · rw [e8, Nat.pow_add]
+      have := (Nat.div_lt_iff_lt_mul (Nat.two_pow_pos (w * (m - 1)))).mp (by rw [htopv]; exact q3)
+      rw [Nat.mul_comm]; exact this
+    · have e9 : 8 * ((m - 1) * O + q - 1) = w * (m - 1) + 8 * (q - 1) := by
+        have : (m - 1) * O + q - 1 = (m - 1) * O + (q - 1) := by omega
+        rw [this, hw8]; ring
+      rw [e9, Nat.pow_add, Nat.mul_comm]
+      exact (Nat.le_div_iff_mul_le (Nat.two_pow_pos (w * (m - 1)))).mp (by rw [htopv]; exact q4)
+    · have : (m - 1) * O + O ≤ O * a.length := by
+        have : (m - 1 + 1) * O ≤ a.length * O := Nat.mul_le_mul_right O (by omega)
+        rw [Nat.add_mul, Nat.one_mul, Nat.mul_comm a.length] at this; exact this
+      omega
+
+end Bits
+
+
+/-! ## uNNParity, all words -/
+
+namespace Bits
+
+/-- XOR of the bits j, …, j+m-1 of x -/
+def xorBits (x j : Nat) : Nat → Bool
+  | 0 => false
+  | m + 1 => xorBits x j m ^^ x.testBit (j + m)
+
+theorem xorBits_add (x j m : Nat) : ∀ n, xorBits x j (m + n) = (xorBits x j m ^^ xorBits x (j + m) n) := by
+  intro n
+  induction n with
+  | zero => simp [xorBits]
+  | succ n ih =>
+    rw [← Nat.add_assoc, xorBits, ih, xorBits, Bool.xor_assoc, Nat.add_assoc]
+
+theorem xorBits_one (x j : Nat) : xorBits x j 1 = x.testBit j := by simp [xorBits]
+
+theorem xfold_step {w x m : Nat} (h : ∀ j, w.testBit j = xorBits x j m) :
+    ∀ j, (w ^^^ (w >>> m)).testBit j = xorBits x j (m + m) := by
+  intro j
+  rw [Nat.testBit_xor, Nat.testBit_shiftRight, h, h, xorBits_add, Nat.add_comm m j]
+
+theorem popN_parity (x : Nat) : ∀ m j, popN m (x / 2 ^ j) % 2 = (xorBits x j m).toNat := by
+  intro m
+  induction m with
+  | zero => intro j; simp [popN, xorBits]
+  | succ m ih =>
+    intro j
+    have e : xorBits x j (m + 1) = (x.testBit j ^^ xorBits x (j + 1) m) := by
+      rw [Nat.add_comm m 1, xorBits_add, xorBits_one]
+    have e2 : x / 2 ^ j / 2 = x / 2 ^ (j + 1) := by
+      rw [Nat.div_div_eq_div_mul, Nat.pow_succ]
+    rw [popN, e, e2, Nat.add_mod, ih (j + 1), Nat.testBit_eq_decide_div_mod_eq]
+    have h2 : x / 2 ^ j % 2 < 2 := Nat.mod_lt _ (by decide)
+    rcases Nat.lt_or_ge (x / 2 ^ j % 2) 1 with c | c
+    · have e3 : x / 2 ^ j % 2 = 0 := by omega
+      rw [e3]; cases xorBits x (j + 1) m <;> simp
+    · have e3 : x / 2 ^ j % 2 = 1 := by omega
+      rw [e3]; cases xorBits x (j + 1) m <;> simp
+
+theorem and_one_testBit (w : Nat) : w &&& 1 = (w.testBit 0).toNat := by
+  rw [Nat.and_one_is_mod, Nat.testBit_zero]
+  rcases Nat.mod_two_eq_zero_or_one w with h | h <;> simp [h]
+
+theorem u32Parity_gen (x : Nat) : u32Parity x = popN 32 x % 2 := by
+  have s0 : ∀ j, x.testBit j = xorBits x j 1 := fun j => (xorBits_one x j).symm
+  have s5 := xfold_step (xfold_step (xfold_step (xfold_step (xfold_step s0))))
+  have := popN_parity x 32 0
+  rw [Nat.pow_zero, Nat.div_one] at this
+  rw [this, ← s5 0]
+  unfold u32Parity
+  simp only []
+  exact and_one_testBit _
+
+theorem u64Parity_gen (x : Nat) : u64Parity x = popN 64 x % 2 := by
+  have s0 : ∀ j, x.testBit j = xorBits x j 1 := fun j => (xorBits_one x j).symm
+  have s6 := xfold_step (xfold_step (xfold_step (xfold_step (xfold_step (xfold_step s0)))))
+  have := popN_parity x 64 0
+  rw [Nat.pow_zero, Nat.div_one] at this
+  rw [this, ← s6 0]
+  unfold u64Parity
+  simp only []
+  exact and_one_testBit _
+
+end Bits
+
+
+/-! ## uNNShuffle / uNNDeshuffle, all words: every stage is an involutive swap of bit groups -/
+
+namespace Bits
+
+/-- one stage of uNNShuffle / uNNDeshuffle:
+    `t = (w ^ (w >> s)) & m, w ^= t ^ (t << s)` in words of `M = 2^N` -/
+def swapStage (M m s w : Nat) : Nat :=
+  let t := (w ^^^ (w >>> s)) &&& m
+  w ^^^ (t ^^^ ((t <<< s) % M))
+
+/-- the mask selects bit groups that do not overlap with their images under `<< s` -/
+def MaskOK (N m s : Nat) : Prop :=
+  ∀ j, m.testBit j = true → j + s < N ∧ m.testBit (j + s) = false ∧ (s ≤ j → m.testBit (j - s) = false)
+
+theorem maskOK_of_bounded {N m s : Nat} (hm : m < 2 ^ N)
+    (h : ∀ j, j < N → m.testBit j = true →
+      j + s < N ∧ m.testBit (j + s) = false ∧ (s ≤ j → m.testBit (j - s) = false)) : MaskOK N m s := by
+  intro j hj
+  by_cases c : j < N
+  · exact h j c hj
+  · rw [Nat.testBit_lt_two_pow (Nat.lt_of_lt_of_le hm (Nat.pow_le_pow_right (by decide) (by omega)))] at hj
+    exact absurd hj (by decide)
+
+/-- a stage swaps bit j (selected by m) with bit j + s and leaves the other bits alone -/
+theorem swapStage_bits {N m s : Nat} (ok : MaskOK N m s) (w j : Nat) :
+    (swapStage (2 ^ N) m s w).testBit j =
+      if m.testBit j = true then w.testBit (j + s)
+      else if s ≤ j ∧ m.testBit (j - s) = true then w.testBit (j - s) else w.testBit j := by
+  unfold swapStage
+  simp only [Nat.testBit_xor, Nat.testBit_and, Nat.testBit_mod_two_pow, Nat.testBit_shiftLeft,
+    Nat.testBit_shiftRight]
+  by_cases c1 : m.testBit j = true
+  · obtain ⟨_, _, h3⟩ := ok j c1
+    rw [if_pos c1, c1]
+    by_cases c2 : s ≤ j
+    · rw [h3 c2, Nat.add_comm s j]
+      cases w.testBit j <;> cases w.testBit (j + s) <;> simp
+    · rw [Nat.add_comm s j]
+      cases w.testBit j <;> cases w.testBit (j + s) <;> simp [c2]
+  · have c1' : m.testBit j = false := by simpa using c1
+    rw [if_neg c1, c1']
+    by_cases c2 : s ≤ j ∧ m.testBit (j - s) = true
+    · obtain ⟨h1, _, _⟩ := ok (j - s) c2.2
+      have hjN : j < N := by omega
+      have e : s + (j - s) = j := by omega
+      rw [if_pos c2, c2.2, e]
+      cases w.testBit j <;> cases w.testBit (j - s) <;> simp [hjN, c2.1]
+    · rw [if_neg c2]
+      by_cases c3 : s ≤ j
+      · have : m.testBit (j - s) = false := by
+          cases hh : m.testBit (j - s)
+          · rfl
+          · exact absurd ⟨c3, hh⟩ c2
+        rw [this]; simp
+      · simp [c3]
+
+theorem swapStage_invol {N m s : Nat} (ok : MaskOK N m s) (w : Nat) :
+    swapStage (2 ^ N) m s (swapStage (2 ^ N) m s w) = w := by
+  apply Nat.eq_of_testBit_eq
+  intro j
+  rw [swapStage_bits ok]
+  by_cases c1 : m.testBit j = true
+  · obtain ⟨_, h2, _⟩ := ok j c1
+    have c2 : ¬ m.testBit (j + s) = true := by rw [h2]; decide
+    have c3 : s ≤ j + s ∧ m.testBit (j + s - s) = true := by
+      rw [Nat.add_sub_cancel]; exact ⟨Nat.le_add_left _ _, c1⟩
+    rw [if_pos c1, swapStage_bits ok, if_neg c2, if_pos c3, Nat.add_sub_cancel]
+  · rw [if_neg c1]
+    by_cases c2 : s ≤ j ∧ m.testBit (j - s) = true
+    · have e : j - s + s = j := by omega
+      rw [if_pos c2, swapStage_bits ok, if_pos c2.2, e]
+    · rw [if_neg c2, swapStage_bits ok, if_neg c1, if_neg c2]
+
+theorem ok32_8 : MaskOK 32 0x0000FF00 8 :=
+  maskOK_of_bounded (by norm_num) (by decide)
+theorem ok32_4 : MaskOK 32 0x00F000F0 4 :=
+  maskOK_of_bounded (by norm_num) (by decide)
+theorem ok32_2 : MaskOK 32 0x0C0C0C0C 2 :=
+  maskOK_of_bounded (by norm_num) (by decide)
+theorem ok32_1 : MaskOK 32 0x22222222 1 :=
+  maskOK_of_bounded (by norm_num) (by decide)
+theorem ok64_16 : MaskOK 64 0x00000000FFFF0000 16 :=
+  maskOK_of_bounded (by norm_num) (by decide)
+theorem ok64_8 : MaskOK 64 0x0000FF000000FF00 8 :=
+  maskOK_of_bounded (by norm_num) (by decide)
+theorem ok64_4 : MaskOK 64 0x00F000F000F000F0 4 :=
+  maskOK_of_bounded (by norm_num) (by decide)
+theorem ok64_2 : MaskOK 64 0x0C0C0C0C0C0C0C0C 2 :=
+  maskOK_of_bounded (by norm_num) (by decide)
+theorem ok64_1 : MaskOK 64 0x2222222222222222 1 :=
+  maskOK_of_bounded (by norm_num) (by decide)
+
+theorem u32Shuffle_stages (x : Nat) : u32Shuffle x =
+    swapStage (2 ^ 32) 0x22222222 1 (swapStage (2 ^ 32) 0x0C0C0C0C 2
+      (swapStage (2 ^ 32) 0x00F000F0 4 (swapStage (2 ^ 32) 0x0000FF00 8 x))) := rfl
+theorem u32Deshuffle_stages (x : Nat) : u32Deshuffle x =
+    swapStage (2 ^ 32) 0x0000FF00 8 (swapStage (2 ^ 32) 0x00F000F0 4
+      (swapStage (2 ^ 32) 0x0C0C0C0C 2 (swapStage (2 ^ 32) 0x22222222 1 x))) := rfl
+theorem u64Shuffle_stages (x : Nat) : u64Shuffle x =
+    swapStage (2 ^ 64) 0x2222222222222222 1 (swapStage (2 ^ 64) 0x0C0C0C0C0C0C0C0C 2
+      (swapStage (2 ^ 64) 0x00F000F000F000F0 4 (swapStage (2 ^ 64) 0x0000FF000000FF00 8
+        (swapStage (2 ^ 64) 0x00000000FFFF0000 16 x)))) := rfl
+theorem u64Deshuffle_stages (x : Nat) : u64Deshuffle x =
+    swapStage (2 ^ 64) 0x00000000FFFF0000 16 (swapStage (2 ^ 64) 0x0000FF000000FF00 8
+      (swapStage (2 ^ 64) 0x00F000F000F000F0 4 (swapStage (2 ^ 64) 0x0C0C0C0C0C0C0C0C 2
+        (swapStage (2 ^ 64) 0x2222222222222222 1 x)))) := rfl
+
+theorem u32Deshuffle_Shuffle_gen (x : Nat) : u32Deshuffle (u32Shuffle x) = x := by
+  rw [u32Shuffle_stages, u32Deshuffle_stages, swapStage_invol ok32_1, swapStage_invol ok32_2,
+    swapStage_invol ok32_4, swapStage_invol ok32_8]
+theorem u32Shuffle_Deshuffle_gen (x : Nat) : u32Shuffle (u32Deshuffle x) = x := by
+  rw [u32Shuffle_stages, u32Deshuffle_stages, swapStage_invol ok32_8, swapStage_invol ok32_4,
+    swapStage_invol ok32_2, swapStage_invol ok32_1]
+theorem u64Deshuffle_Shuffle_gen (x : Nat) : u64Deshuffle (u64Shuffle x) = x := by
+  rw [u64Shuffle_stages, u64Deshuffle_stages, swapStage_invol ok64_1, swapStage_invol ok64_2,
+    swapStage_invol ok64_4, swapStage_invol ok64_8, swapStage_invol ok64_16]
+theorem u64Shuffle_Deshuffle_gen (x : Nat) : u64Shuffle (u64Deshuffle x) = x := by
+  rw [u64Shuffle_stages, u64Deshuffle_stages, swapStage_invol ok64_16, swapStage_invol ok64_8,
+    swapStage_invol ok64_4, swapStage_invol ok64_2, swapStage_invol ok64_1]
+
+theorem shufN_bits : ∀ (k lo hi j : Nat), (shufN k lo hi).testBit j =
+    (decide (j < 2 * k) && (if j % 2 = 0 then lo.testBit (j / 2) else hi.testBit (j / 2))) := by
+  intro k
+  induction k with
+  | zero => intro lo hi j; simp [shufN]
+  | succ k ih =>
+    intro lo hi j
+    have e : shufN (k + 1) lo hi = 2 ^ 2 * shufN k (lo / 2) (hi / 2) + (lo % 2 + 2 * (hi % 2)) := by
+      simp only [shufN]; omega
+    have hb : lo % 2 + 2 * (hi % 2) < 2 ^ 2 := by omega
+    rw [e, Nat.testBit_two_pow_mul_add _ hb]
+    by_cases c : j < 2
+    · rw [if_pos c]
+      have hj : j = 0 ∨ j = 1 := by omega
+      rcases hj with rfl | rfl
+      · rw [Nat.testBit_zero, Nat.testBit_zero]
+        have : (lo % 2 + 2 * (hi % 2)) % 2 = lo % 2 := by omega
+        simp [this]
+      · have h1 : (lo % 2 + 2 * (hi % 2)).testBit 1 = hi.testBit 0 := by
+          rw [Nat.testBit_eq_decide_div_mod_eq, Nat.testBit_zero]
+          have : (lo % 2 + 2 * (hi % 2)) / 2 ^ 1 % 2 = hi % 2 := by omega
+          rw [this]
+        have hk : 1 < 2 * (k + 1) := by omega
+        rw [h1]; simp [hk]
+    · rw [if_neg c, ih]
+      have e1 : (j - 2) % 2 = j % 2 := by omega
+      have e2 : (j - 2) / 2 + 1 = j / 2 := by omega
+      have e3 : (decide (j - 2 < 2 * k)) = decide (j < 2 * (k + 1)) := by
+        apply decide_eq_decide.mpr; omega
+      rw [e1, e3, ← e2, Nat.testBit_succ, Nat.testBit_succ]
+
+theorem swapStage_lt {N m s w : Nat} (ok : MaskOK N m s) (hw : w < 2 ^ N) :
+    swapStage (2 ^ N) m s w < 2 ^ N := by
+  apply Nat.lt_pow_two_of_testBit
+  intro j hj
+  have hwj : ∀ i, N ≤ i → w.testBit i = false := fun i hi =>
+    Nat.testBit_lt_two_pow (Nat.lt_of_lt_of_le hw (Nat.pow_le_pow_right (by decide) hi))
+  rw [swapStage_bits ok]
+  split
+  · exact hwj _ (by omega)
+  · split
+    · rename_i h2
+      have := (ok _ h2.2).1
+      omega
+    · exact hwj _ hj
+
+theorem sb32_8 (w j : Nat) : (swapStage 4294967296 0x0000FF00 8 w).testBit j =
+    if (0x0000FF00 : Nat).testBit j = true then w.testBit (j + 8)
+    else if 8 ≤ j ∧ (0x0000FF00 : Nat).testBit (j - 8) = true then w.testBit (j - 8) else w.testBit j :=
+  swapStage_bits ok32_8 w j
+theorem sb32_4 (w j : Nat) : (swapStage 4294967296 0x00F000F0 4 w).testBit j =
+    if (0x00F000F0 : Nat).testBit j = true then w.testBit (j + 4)
+    else if 4 ≤ j ∧ (0x00F000F0 : Nat).testBit (j - 4) = true then w.testBit (j - 4) else w.testBit j :=
+  swapStage_bits ok32_4 w j
+theorem sb32_2 (w j : Nat) : (swapStage 4294967296 0x0C0C0C0C 2 w).testBit j =
+    if (0x0C0C0C0C : Nat).testBit j = true then w.testBit (j + 2)
+    else if 2 ≤ j ∧ (0x0C0C0C0C : Nat).testBit (j - 2) = true then w.testBit (j - 2) else w.testBit j :=
+  swapStage_bits ok32_2 w j
+theorem sb32_1 (w j : Nat) : (swapStage 4294967296 0x22222222 1 w).testBit j =
+    if (0x22222222 : Nat).testBit j = true then w.testBit (j + 1)
+    else if 1 ≤ j ∧ (0x22222222 : Nat).testBit (j - 1) = true then w.testBit (j - 1) else w.testBit j :=
+  swapStage_bits ok32_1 w j
+theorem sb64_16 (w j : Nat) : (swapStage 18446744073709551616 0x00000000FFFF0000 16 w).testBit j =
+    if (0x00000000FFFF0000 : Nat).testBit j = true then w.testBit (j + 16)
+    else if 16 ≤ j ∧ (0x00000000FFFF0000 : Nat).testBit (j - 16) = true then w.testBit (j - 16) else w.testBit j :=
+  swapStage_bits ok64_16 w j
+theorem sb64_8 (w j : Nat) : (swapStage 18446744073709551616 0x0000FF000000FF00 8 w).testBit j =
+    if (0x0000FF000000FF00 : Nat).testBit j = true then w.testBit (j + 8)
+    else if 8 ≤ j ∧ (0x0000FF000000FF00 : Nat).testBit (j - 8) = true then w.testBit (j - 8) else w.testBit j :=
+  swapStage_bits ok64_8 w j
+theorem sb64_4 (w j : Nat) : (swapStage 18446744073709551616 0x00F000F000F000F0 4 w).testBit j =
+    if (0x00F000F000F000F0 : Nat).testBit j = true then w.testBit (j + 4)
+    else if 4 ≤ j ∧ (0x00F000F000F000F0 : Nat).testBit (j - 4) = true then w.testBit (j - 4) else w.testBit j :=
+  swapStage_bits ok64_4 w j
+theorem sb64_2 (w j : Nat) : (swapStage 18446744073709551616 0x0C0C0C0C0C0C0C0C 2 w).testBit j =
+    if (0x0C0C0C0C0C0C0C0C : Nat).testBit j = true then w.testBit (j + 2)
+    else if 2 ≤ j ∧ (0x0C0C0C0C0C0C0C0C : Nat).testBit (j - 2) = true then w.testBit (j - 2) else w.testBit j :=
+  swapStage_bits ok64_2 w j
+theorem sb64_1 (w j : Nat) : (swapStage 18446744073709551616 0x2222222222222222 1 w).testBit j =
+    if (0x2222222222222222 : Nat).testBit j = true then w.testBit (j + 1)
+    else if 1 ≤ j ∧ (0x2222222222222222 : Nat).testBit (j - 1) = true then w.testBit (j - 1) else w.testBit j :=
+  swapStage_bits ok64_1 w j
+
+theorem u32Shuffle_gen (x : Nat) (hx : x < 2 ^ 32) :
+    u32Shuffle x = shufN 16 (x % 2 ^ 16) (x / 2 ^ 16) := by
+  apply Nat.eq_of_testBit_eq
+  intro j
+  rw [shufN_bits, Nat.testBit_mod_two_pow, tb_div]
+  by_cases hj : j < 32
+  · rw [u32Shuffle_stages]
+    interval_cases j <;>
+      simp (decide := true) [sb32_1, sb32_2, sb32_4, sb32_8, -Nat.testBit_zero]
+  · have hlt : u32Shuffle x < 2 ^ 32 := by
+      rw [u32Shuffle_stages]
+      exact swapStage_lt ok32_1 (swapStage_lt ok32_2 (swapStage_lt ok32_4 (swapStage_lt ok32_8 hx)))
+    rw [testBit_high hlt (by omega)]
+    simp [hj]
+
+theorem u64Shuffle_gen (x : Nat) (hx : x < 2 ^ 64) :
+    u64Shuffle x = shufN 32 (x % 2 ^ 32) (x / 2 ^ 32) := by
+  apply Nat.eq_of_testBit_eq
+  intro j
+  rw [shufN_bits, Nat.testBit_mod_two_pow, tb_div]
+  by_cases hj : j < 64
+  · rw [u64Shuffle_stages]
+    interval_cases j <;>
+      simp (decide := true) [sb64_1, sb64_2, sb64_4, sb64_8, sb64_16, -Nat.testBit_zero]
+  · have hlt : u64Shuffle x < 2 ^ 64 := by
+      rw [u64Shuffle_stages]
+      exact swapStage_lt ok64_1 (swapStage_lt ok64_2 (swapStage_lt ok64_4 (swapStage_lt ok64_8
+        (swapStage_lt ok64_16 hx))))
+    rw [testBit_high hlt (by omega)]
+    simp [hj]
+
+end Bits
+
+
+/-! ## uNNRev, uNNBitrev, all words -/
+
+/-- reversal of the low `k` octets: octet i goes to octet k-1-i -/
+def octRevN : Nat → Nat → Nat
+  | 0, _ => 0
+  | k + 1, x => (x % 256) * 256 ^ k + octRevN k (x / 256)
+
+namespace Bits
+
+theorem bitrevN_lt : ∀ k x, bitrevN k x < 2 ^ k := by
+  intro k
+  induction k with
+  | zero => intro x; simp [bitrevN]
+  | succ k ih =>
+    intro x
+    have := ih (x / 2)
+    have h2 : x % 2 < 2 := Nat.mod_lt _ (by decide)
+    have : x % 2 * 2 ^ k ≤ 1 * 2 ^ k := Nat.mul_le_mul_right _ (by omega)
+    rw [bitrevN, Nat.pow_succ]; omega
+
+theorem bitrevN_bits : ∀ k x j, (bitrevN k x).testBit j = (decide (j < k) && x.testBit (k - 1 - j)) := by
+  intro k
+  induction k with
+  | zero => intro x j; simp [bitrevN]
+  | succ k ih =>
+    intro x j
+    rw [bitrevN, Nat.mul_comm, Nat.testBit_two_pow_mul_add _ (bitrevN_lt k _)]
+    by_cases c : j < k
+    · have e : k + 1 - 1 - j = (k - 1 - j) + 1 := by omega
+      have c2 : j < k + 1 := by omega
+      rw [if_pos c, ih, e, Nat.testBit_succ]; simp [c, c2]
+    · rw [if_neg c]
+      by_cases c3 : j = k
+      · subst c3
+        have e : j + 1 - 1 - j = 0 := by omega
+        rw [Nat.sub_self, e, Nat.testBit_zero, Nat.testBit_zero]; simp
+      · have c4 : ¬ j < k + 1 := by omega
+        obtain ⟨i, hi⟩ : ∃ i, j - k = i + 1 := ⟨j - k - 1, by omega⟩
+        have : (x % 2).testBit (i + 1) = false := by
+          rw [Nat.testBit_succ]
+          have : x % 2 / 2 = 0 := by omega
+          rw [this, Nat.zero_testBit]
+        rw [hi, this]; simp [c4]
+
+theorem octRevN_lt : ∀ k x, octRevN k x < 2 ^ (8 * k) := by
+  intro k
+  induction k with
+  | zero => intro x; simp [octRevN]
+  | succ k ih =>
+    intro x
+    have := ih (x / 256)
+    have e : (256 : Nat) ^ k = 2 ^ (8 * k) := by rw [Nat.pow_mul]
+    have h2 : x % 256 < 256 := Nat.mod_lt _ (by decide)
+    have : x % 256 * 2 ^ (8 * k) ≤ 255 * 2 ^ (8 * k) := Nat.mul_le_mul_right _ (by omega)
+    have e2 : 2 ^ (8 * (k + 1)) = 256 * 2 ^ (8 * k) := by
+      rw [Nat.mul_add, Nat.pow_add]; ring
+    rw [octRevN, e, e2]; omega
+
+theorem octRevN_bits : ∀ k x j, (octRevN k x).testBit j =
+    (decide (j < 8 * k) && x.testBit (8 * (k - 1 - j / 8) + j % 8)) := by
+  intro k
+  induction k with
+  | zero => intro x j; simp [octRevN]
+  | succ k ih =>
+    intro x j
+    have e : (256 : Nat) ^ k = 2 ^ (8 * k) := by rw [Nat.pow_mul]
+    rw [octRevN, e, Nat.mul_comm, Nat.testBit_two_pow_mul_add _ (octRevN_lt k _)]
+    by_cases c : j < 8 * k
+    · have c2 : j < 8 * (k + 1) := by omega
+      have e3 : 8 * (k + 1 - 1 - j / 8) + j % 8 = 8 + (8 * (k - 1 - j / 8) + j % 8) := by omega
+      have e4 : (256 : Nat) = 2 ^ 8 := by norm_num
+      rw [if_pos c, ih, e3, e4, tb_div]; simp [c, c2]
+    · rw [if_neg c]
+      have e4 : (256 : Nat) = 2 ^ 8 := by norm_num
+      rw [e4, Nat.testBit_mod_two_pow]
+      by_cases c3 : j < 8 * (k + 1)
+      · have e5 : 8 * (k + 1 - 1 - j / 8) + j % 8 = j - 8 * k := by omega
+        have c5 : j - 8 * k < 8 := by omega
+        rw [e5]; simp [c3, c5]
+      · have c5 : ¬ j - 8 * k < 8 := by omega
+        simp [c3, c5]
+
+/-- one stage of uNNBitrev: `w = ((w >> s) & m) | ((w & m) << s)` in words of M = 2^N -/
+def brStage (M m s w : Nat) : Nat := ((w >>> s) &&& m) ||| (((w &&& m) <<< s) % M)
+/-- the last stage: `w = (w >> s) | (w << s)` -/
+def brFin (M s w : Nat) : Nat := (w >>> s) ||| ((w <<< s) % M)
+
+theorem brStage_bits (N m s w j : Nat) : (brStage (2 ^ N) m s w).testBit j =
+    ((if m.testBit j = true then w.testBit (j + s) else false) ||
+      (if j < N ∧ s ≤ j ∧ m.testBit (j - s) = true then w.testBit (j - s) else false)) := by
+  unfold brStage
+  rw [Nat.testBit_or, Nat.testBit_and, Nat.testBit_shiftRight, Nat.testBit_mod_two_pow,
+    Nat.testBit_shiftLeft, Nat.testBit_and, Nat.add_comm s j]
+  by_cases c1 : m.testBit j = true
+  · by_cases c2 : j < N ∧ s ≤ j ∧ m.testBit (j - s) = true
+    · rw [if_pos c1, if_pos c2, c1, c2.2.2]; simp [c2.1, c2.2.1]
+    · rw [if_pos c1, if_neg c2, c1]
+      by_cases d1 : j < N
+      · by_cases d2 : s ≤ j
+        · have : m.testBit (j - s) = false := by
+            cases hh : m.testBit (j - s)
+            · rfl
+            · exact absurd ⟨d1, d2, hh⟩ c2
+          simp [this]
+        · simp [d2]
+      · simp [d1]
+  · have c1' : m.testBit j = false := by simpa using c1
+    by_cases c2 : j < N ∧ s ≤ j ∧ m.testBit (j - s) = true
+    · rw [if_neg c1, if_pos c2, c1', c2.2.2]; simp [c2.1, c2.2.1]
+    · rw [if_neg c1, if_neg c2, c1']
+      by_cases d1 : j < N
+      · by_cases d2 : s ≤ j
+        · have : m.testBit (j - s) = false := by
+            cases hh : m.testBit (j - s)
+            · rfl
+            · exact absurd ⟨d1, d2, hh⟩ c2
+          simp [this]
+        · simp [d2]
+      · simp [d1]
+
+theorem brFin_bits (N s w j : Nat) : (brFin (2 ^ N) s w).testBit j =
+    (w.testBit (j + s) || (if j < N ∧ s ≤ j then w.testBit (j - s) else false)) := by
+  unfold brFin
+  rw [Nat.testBit_or, Nat.testBit_shiftRight, Nat.testBit_mod_two_pow, Nat.testBit_shiftLeft,
+    Nat.add_comm s j]
+  by_cases c : j < N ∧ s ≤ j
+  · rw [if_pos c]; simp [c.1, c.2]
+  · rw [if_neg c]
+    by_cases d1 : j < N
+    · have : ¬ s ≤ j := fun h => c ⟨d1, h⟩
+      simp [this]
+    · simp [d1]
+
+theorem brStage_lt {N m s w : Nat} (hm : m < 2 ^ N) : brStage (2 ^ N) m s w < 2 ^ N :=
+  Nat.or_lt_two_pow (Nat.and_lt_two_pow _ hm) (Nat.mod_lt _ (Nat.two_pow_pos N))
+theorem brFin_lt {N s w : Nat} (hw : w < 2 ^ N) : brFin (2 ^ N) s w < 2 ^ N :=
+  Nat.or_lt_two_pow (Nat.lt_of_le_of_lt (by rw [Nat.shiftRight_eq_div_pow]; exact Nat.div_le_self _ _) hw)
+    (Nat.mod_lt _ (Nat.two_pow_pos N))
+
+theorem u32Bitrev_stages (x : Nat) : u32Bitrev x =
+    brFin 4294967296 16 (brStage 4294967296 0x00FF00FF 8 (brStage 4294967296 0x0F0F0F0F 4
+      (brStage 4294967296 0x33333333 2 (brStage 4294967296 0x55555555 1 x)))) := rfl
+theorem u64Bitrev_stages (x : Nat) : u64Bitrev x =
+    brFin 18446744073709551616 32 (brStage 18446744073709551616 0x0000FFFF0000FFFF 16
+      (brStage 18446744073709551616 0x00FF00FF00FF00FF 8
+      (brStage 18446744073709551616 0x0F0F0F0F0F0F0F0F 4
+      (brStage 18446744073709551616 0x3333333333333333 2
+      (brStage 18446744073709551616 0x5555555555555555 1 x))))) := rfl
+
+theorem bs32 (m s w j : Nat) : (brStage 4294967296 m s w).testBit j =
+    ((if m.testBit j = true then w.testBit (j + s) else false) ||
+      (if j < 32 ∧ s ≤ j ∧ m.testBit (j - s) = true then w.testBit (j - s) else false)) :=
+  brStage_bits 32 m s w j
+theorem bf32 (s w j : Nat) : (brFin 4294967296 s w).testBit j =
+    (w.testBit (j + s) || (if j < 32 ∧ s ≤ j then w.testBit (j - s) else false)) := brFin_bits 32 s w j
+theorem bs64 (m s w j : Nat) : (brStage 18446744073709551616 m s w).testBit j =
+    ((if m.testBit j = true then w.testBit (j + s) else false) ||
+      (if j < 64 ∧ s ≤ j ∧ m.testBit (j - s) = true then w.testBit (j - s) else false)) :=
+  brStage_bits 64 m s w j
+theorem bf64 (s w j : Nat) : (brFin 18446744073709551616 s w).testBit j =
+    (w.testBit (j + s) || (if j < 64 ∧ s ≤ j then w.testBit (j - s) else false)) := brFin_bits 64 s w j
+
+/-- u32Bitrev reverses the 32 bits (for every x: only the low 32 bits of x are read) -/
+theorem u32Bitrev_gen (x : Nat) : u32Bitrev x = bitrevN 32 x := by
+  apply Nat.eq_of_testBit_eq
+  intro j
+  rw [bitrevN_bits]
+  by_cases hj : j < 32
+  · rw [u32Bitrev_stages]
+    interval_cases j <;> simp (decide := true) [bs32, bf32, -Nat.testBit_zero]
+  · have hlt : u32Bitrev x < 2 ^ 32 := by
+      rw [u32Bitrev_stages]
+      exact brFin_lt (N := 32) (brStage_lt (N := 32) (by norm_num))
+    rw [testBit_high hlt (by omega)]
+    simp [hj]
+
+theorem u64Bitrev_gen (x : Nat) : u64Bitrev x = bitrevN 64 x := by
+  apply Nat.eq_of_testBit_eq
+  intro j
+  rw [bitrevN_bits]
+  by_cases hj : j < 64
+  · rw [u64Bitrev_stages]
+    interval_cases j <;> simp (decide := true) [bs64, bf64, -Nat.testBit_zero]
+  · have hlt : u64Bitrev x < 2 ^ 64 := by
+      rw [u64Bitrev_stages]
+      exact brFin_lt (N := 64) (brStage_lt (N := 64) (by norm_num))
+    rw [testBit_high hlt (by omega)]
+    simp [hj]
+
+theorem mo1 (j : Nat) : Nat.testBit 65280 j = (decide (8 ≤ j) && decide (j - 8 < 8)) :=
+  mask_octet_bits 1 j
+theorem mo2 (j : Nat) : Nat.testBit 16711680 j = (decide (16 ≤ j) && decide (j - 16 < 8)) :=
+  mask_octet_bits 2 j
+theorem mo3 (j : Nat) : Nat.testBit 4278190080 j = (decide (24 ≤ j) && decide (j - 24 < 8)) :=
+  mask_octet_bits 3 j
+
+theorem u32Rev_gen (x : Nat) (hx : x < 2 ^ 32) : u32Rev x = octRevN 4 x := by
+  have hhi : ∀ i, 32 ≤ i → x.testBit i = false := fun i hi =>
+    Nat.testBit_lt_two_pow (Nat.lt_of_lt_of_le hx (Nat.pow_le_pow_right (by decide) hi))
+  have hlt : u32Rev x < 2 ^ 32 := by
+    unfold u32Rev
+    refine Nat.or_lt_two_pow (Nat.or_lt_two_pow (Nat.or_lt_two_pow (Nat.mod_lt _ (by norm_num))
+      (Nat.mod_lt _ (by norm_num))) (Nat.and_lt_two_pow _ (by norm_num))) ?_
+    rw [Nat.shiftRight_eq_div_pow]
+    exact Nat.lt_of_le_of_lt (Nat.div_le_self _ _) hx
+  apply Nat.eq_of_testBit_eq
+  intro j
+  rw [octRevN_bits]
+  by_cases hj : j < 32
+  · unfold u32Rev
+    simp only [Nat.testBit_or, Nat.testBit_and, Nat.testBit_shiftRight, Nat.testBit_shiftLeft,
+      show (0x100000000 : Nat) = 2 ^ 32 from by norm_num, Nat.testBit_mod_two_pow]
+    interval_cases j <;> simp (decide := true) [hhi, mo1, mo2, mo3, -Nat.testBit_zero]
+  · rw [testBit_high hlt (by omega)]
+    simp [hj]
+
+theorem u64Rev_gen (x : Nat) (hx : x < 2 ^ 64) : u64Rev x = octRevN 8 x := by
+  have hhi : ∀ i, 64 ≤ i → x.testBit i = false := fun i hi =>
+    Nat.testBit_lt_two_pow (Nat.lt_of_lt_of_le hx (Nat.pow_le_pow_right (by decide) hi))
+  have hlt : u64Rev x < 2 ^ 64 := by
+    unfold u64Rev
+    refine Nat.or_lt_two_pow (Nat.or_lt_two_pow (Nat.or_lt_two_pow (Nat.or_lt_two_pow
+      (Nat.or_lt_two_pow (Nat.or_lt_two_pow (Nat.or_lt_two_pow (Nat.mod_lt _ (by norm_num))
+      (Nat.mod_lt _ (by norm_num))) (Nat.mod_lt _ (by norm_num))) (Nat.mod_lt _ (by norm_num)))
+      (Nat.and_lt_two_pow _ (by norm_num))) (Nat.and_lt_two_pow _ (by norm_num)))
+      (Nat.and_lt_two_pow _ (by norm_num))) ?_
+    rw [Nat.shiftRight_eq_div_pow]
+    exact Nat.lt_of_le_of_lt (Nat.div_le_self _ _) hx
+  apply Nat.eq_of_testBit_eq
+  intro j
+  rw [octRevN_bits]
+  by_cases hj : j < 64
+  · unfold u64Rev
+    simp only [Nat.testBit_or, Nat.testBit_and, Nat.testBit_shiftRight, Nat.testBit_shiftLeft,
+      show (0x10000000000000000 : Nat) = 2 ^ 64 from by norm_num, Nat.testBit_mod_two_pow]
+    interval_cases j <;> simp (decide := true) [hhi, mo1, mo2, mo3, -Nat.testBit_zero]
+  · rw [testBit_high hlt (by omega)]
+    simp [hj]
+
+end Bits
 
 end Bee2V.C05
